@@ -174,38 +174,44 @@ Qed.
 
 Section Choice.
 Variable next : Z -> Z.
+(* the hypotheses on [next] are only needed up to an instant [hi] that bounds
+   every argument the code passes to it (earliest time and now): a finite
+   schedule table ([next_tbl], which answers the zero time past its last point)
+   and robfig/cron (which gives up after five years) satisfy them on such a
+   window although not for all t *)
+Variable hi : Z.
 
-Definition sched (s : Z) : Prop := exists u, next u = s.
+Definition sched (s : Z) : Prop := exists u, u <= hi /\ next u = s.
 
 (* next t is the LEAST schedule point after t; points are whole seconds *)
-Hypothesis next_gt : forall t, t < next t.
-Hypothesis next_least : forall t s, sched s -> t < s -> next t <= s.
-Hypothesis next_sec : forall t, exists k, next t = k * sec.
+Hypothesis next_gt : forall t, t <= hi -> t < next t.
+Hypothesis next_least : forall t s, t <= hi -> sched s -> t < s -> next t <= s.
+Hypothesis next_sec : forall t, t <= hi -> exists k, next t = k * sec.
 
-Lemma no_point_between : forall m now, now < next m -> forall s, sched s -> m < s -> now < s.
-Proof. intros m now H s Hs Hm. specialize (next_least m s Hs Hm). lia. Qed.
+Lemma no_point_between : forall m now, m <= hi -> now < next m -> forall s, sched s -> m < s -> now < s.
+Proof. intros m now Hm H s Hs Hms. pose proof (next_least m s Hm Hs Hms). lia. Qed.
 
-Lemma mr_loop_sound : forall now lb fuel t most r,
+Lemma mr_loop_sound : forall now lb, now <= hi -> forall fuel t most r,
   sched t -> lb < t ->
   (forall m, most = Some m -> sched m /\ lb < m /\ m <= now /\ next m = t) ->
   mr_loop next fuel now t most = Some r ->
   forall m, r = Some m -> sched m /\ lb < m /\ m <= now /\ now < next m.
 Proof.
-  intros now lb fuel. induction fuel as [|k IH]; intros t most r Ht Hlb Hm; cbn [mr_loop].
+  intros now lb Hnow fuel. induction fuel as [|k IH]; intros t most r Ht Hlb Hm; cbn [mr_loop].
   - destruct (Z.ltb_spec now t); [|discriminate].
     intros E m Hr. inversion E; subst. destruct (Hm m eq_refl) as (? & ? & ? & ?). repeat split; auto. lia.
   - destruct (Z.ltb_spec now t).
     + intros E m Hr. inversion E; subst. destruct (Hm m eq_refl) as (? & ? & ? & ?). repeat split; auto. lia.
     + intros E. eapply IH; [| |  | exact E].
-      * now exists t.
-      * pose proof (next_gt t). lia.
+      * exists t. split; [lia|reflexivity].
+      * pose proof (next_gt t ltac:(lia)). lia.
       * intros m Em. inversion Em; subst. repeat split; auto.
 Qed.
 
 Lemma catch_up_start : forall t1 t2 now,
   (exists a, t1 = a * sec) -> (exists b, t2 = b * sec) -> t1 < t2 -> t2 <= now ->
   1 <= round_sec_s (t2 - t1) /\
-  t1 <= t1 + ((now - t1) / sec / round_sec_s (t2 - t1) + 1 - 2) * round_sec_s (t2 - t1) * sec.
+  t1 <= t1 + ((now - t1) / sec / round_sec_s (t2 - t1) + 1 - 2) * round_sec_s (t2 - t1) * sec <= now.
 Proof.
   intros t1 t2 now [a Ha] [b Hb] Hlt Hle. subst.
   replace (b * sec - a * sec) with ((b - a) * sec) by lia.
@@ -213,52 +219,114 @@ Proof.
   pose proof sec_pos as Hs.
   assert (Hba : 1 <= b - a) by nia.
   split; [lia|].
-  assert (He : b - a <= (now - a * sec) / sec).
+  set (E := (now - a * sec) / sec).
+  assert (HE : E * sec <= now - a * sec).
+  { unfold E. pose proof (Z.mul_div_le (now - a * sec) sec Hs). lia. }
+  assert (He : b - a <= E).
+  { unfold E. apply Z.div_le_lower_bound; lia. }
+  assert (Hq : 1 <= E / (b - a)).
   { apply Z.div_le_lower_bound; lia. }
-  assert (Hq : 1 <= (now - a * sec) / sec / (b - a)).
-  { apply Z.div_le_lower_bound; lia. }
-  nia.
+  assert (Hq2 : E / (b - a) * (b - a) <= E).
+  { pose proof (Z.mul_div_le E (b - a) ltac:(lia)). lia. }
+  split; nia.
 Qed.
 
 (* main: the chosen time is a schedule point, after the earliest time, not
    after now, and no schedule point lies in (t, now] *)
 Theorem most_recent_sound : forall fuel created last deadline now incl e t m,
+  earliest_time created last deadline now incl <= hi -> now <= hi ->
   most_recent next fuel created last deadline now incl = (e, MrOk (Some t) m) ->
   e = earliest_time created last deadline now incl /\
   sched t /\ e < t /\ t <= now /\ (forall s, sched s -> t < s -> now < s).
 Proof.
   intros fuel created last deadline now incl e t m. unfold most_recent.
   set (e0 := earliest_time created last deadline now incl).
-  set (t1 := next e0). set (t2 := next t1).
+  set (t1 := next e0). set (t2 := next t1). intros He0 Hnow.
   destruct (Z.ltb_spec now t1); [intros E; inversion E|].
+  assert (Ht1 : t1 <= hi) by lia.
   destruct (Z.ltb_spec now t2).
-  - intros E; inversion E; subst. split; [reflexivity|]. split; [now exists e0|].
-    split; [apply next_gt|]. split; [assumption|]. now apply no_point_between.
-  - assert (Hlt : t1 < t2) by apply next_gt.
-    destruct (catch_up_start t1 t2 now (next_sec e0) (next_sec t1) Hlt H0) as [Htb Hpe].
+  - intros E; inversion E; subst. split; [reflexivity|]. split; [exists e0; auto|].
+    split; [apply next_gt; auto|]. split; [assumption|]. apply no_point_between; auto.
+  - assert (Hlt : t1 < t2) by (apply next_gt; auto).
+    destruct (catch_up_start t1 t2 now (next_sec e0 He0) (next_sec t1 Ht1) Hlt H0) as [Htb Hpe].
     fold t1 t2.
     destruct (Z.ltb_spec (round_sec_s (t2 - t1)) 1); [lia|].
     set (pe := t1 + ((now - t1) / sec / round_sec_s (t2 - t1) + 1 - 2) * round_sec_s (t2 - t1) * sec) in *.
+    assert (Hpehi : pe <= hi) by lia.
     destruct (mr_loop next fuel now (next pe) None) as [most|] eqn:EL; [|intros E; inversion E].
     intros E; inversion E; subst. split; [reflexivity|].
-    assert (He : e0 < next pe). { pose proof (next_gt e0) as G1. pose proof (next_gt pe) as G2. fold t1 in G1. lia. }
-    destruct (mr_loop_sound now e0 fuel (next pe) None (Some t)) with (m := t)
+    assert (He : e0 < next pe).
+    { pose proof (next_gt e0 He0) as G1. pose proof (next_gt pe Hpehi) as G2. fold t1 in G1. lia. }
+    destruct (mr_loop_sound now e0 Hnow fuel (next pe) None (Some t)) with (m := t)
       as (Hs & Hl & Hn & Hx); auto.
-    + now exists pe.
+    + exists pe. auto.
     + intros ? Hd; discriminate.
-    + repeat split; auto. now apply no_point_between.
+    + repeat split; auto. apply no_point_between; auto. lia.
 Qed.
 
 Theorem cron_choice_sound : forall fuel created last deadline now t,
+  earliest_time created last deadline now true <= hi -> now <= hi ->
   next_schedule_time next fuel created last deadline now = NsOk (Some t) ->
   let e := earliest_time created last deadline now true in
   sched t /\ e < t /\ t <= now /\ (forall s, sched s -> t < s -> now < s).
 Proof.
-  intros fuel created last deadline now t. unfold next_schedule_time.
+  intros fuel created last deadline now t He Hnow. unfold next_schedule_time.
   destruct (most_recent next fuel created last deadline now true) as [e r] eqn:E. cbn [snd].
   destruct r as [| |[t'|] m]; try discriminate.
   destruct (Z.ltb_spec now t'); [discriminate|]. intros H'; inversion H'; subst.
-  apply most_recent_sound in E. destruct E as (-> & ?). assumption.
+  apply most_recent_sound in E; auto. destruct E as (-> & ?). assumption.
+Qed.
+
+(* the loop fuel that suffices: one step per whole second between the start
+   of the catch-up and now *)
+Lemma mr_loop_fuel : forall now, now <= hi -> forall fuel t most,
+  (exists k, t = k * sec) ->
+  (Z.to_nat ((now - t) / sec + 1) <= fuel)%nat \/ now < t ->
+  mr_loop next fuel now t most <> None.
+Proof.
+  intros now Hnow fuel. induction fuel as [|f IH]; intros t most [k Hk] Hf; cbn [mr_loop].
+  - destruct (Z.ltb_spec now t); [discriminate|]. exfalso.
+    destruct Hf as [Hf|Hf]; [|lia]. pose proof sec_pos.
+    assert (0 <= (now - t) / sec) by (apply Z.div_pos; lia). lia.
+  - destruct (Z.ltb_spec now t); [discriminate|].
+    pose proof sec_pos as Hs.
+    destruct (next_sec t ltac:(lia)) as [k' Hk']. pose proof (next_gt t ltac:(lia)) as Hgt.
+    apply IH; [eauto|].
+    destruct (Z.ltb_spec now (next t)); [right; assumption|left].
+    destruct Hf as [Hf|Hf]; [|lia].
+    assert (Hstep : (now - next t) / sec + 1 <= (now - t) / sec).
+    { subst t. rewrite Hk' in *. assert (k + 1 <= k') by nia.
+      replace (now - k * sec) with ((now - k' * sec) + (k' - k) * sec) by lia.
+      rewrite Z.div_add by lia. lia. }
+    assert (0 <= (now - next t) / sec) by (apply Z.div_pos; lia).
+    lia.
+Qed.
+
+Theorem most_recent_fuel_enough : forall fuel created last deadline now incl,
+  earliest_time created last deadline now incl <= hi -> now <= hi ->
+  (Z.to_nat ((now - earliest_time created last deadline now incl) / sec + 1) <= fuel)%nat ->
+  snd (most_recent next fuel created last deadline now incl) <> MrFuel.
+Proof.
+  intros fuel created last deadline now incl. unfold most_recent.
+  set (e0 := earliest_time created last deadline now incl).
+  set (t1 := next e0). set (t2 := next t1). intros He0 Hnow Hfuel.
+  destruct (Z.ltb_spec now t1); [cbn; discriminate|].
+  assert (Ht1 : t1 <= hi) by lia.
+  destruct (Z.ltb_spec now t2); [cbn; discriminate|].
+  assert (Hlt : t1 < t2) by (apply next_gt; auto).
+  destruct (catch_up_start t1 t2 now (next_sec e0 He0) (next_sec t1 Ht1) Hlt H0) as [Htb Hpe].
+  fold t1 t2.
+  destruct (Z.ltb_spec (round_sec_s (t2 - t1)) 1); [lia|].
+  set (pe := t1 + ((now - t1) / sec / round_sec_s (t2 - t1) + 1 - 2) * round_sec_s (t2 - t1) * sec) in *.
+  assert (Hpehi : pe <= hi) by lia.
+  destruct (mr_loop next fuel now (next pe) None) as [most|] eqn:EL; [cbn; discriminate|].
+  exfalso. revert EL. apply mr_loop_fuel; auto.
+  pose proof (next_gt e0 He0) as G1. pose proof (next_gt pe Hpehi) as G2. fold t1 in G1.
+  destruct (Z.ltb_spec now (next pe)); [right; assumption|left].
+  pose proof sec_pos as Hs.
+  assert ((now - next pe) / sec <= (now - e0) / sec) by (apply Z.div_le_mono; lia).
+  assert (0 <= (now - next pe) / sec) by (apply Z.div_pos; lia).
+  lia.
 Qed.
 
 (* the earliest time is never before the last schedule time *)
@@ -280,33 +348,35 @@ Qed.
 Section Regular.
 Variable p : Z.   (* the period in seconds *)
 Hypothesis p_pos : 0 < p.
-Hypothesis next_regular : forall s, sched s -> next s = s + p * sec.
+Hypothesis next_regular : forall s, s <= hi -> sched s -> next s = s + p * sec.
 
-Lemma regular_iter : forall s, sched s -> forall k, 0 <= k ->
+Lemma regular_iter : forall s, sched s -> forall k, 0 <= k -> s + k * (p * sec) <= hi ->
   sched (s + k * (p * sec)) /\ next (s + k * (p * sec)) = s + (k + 1) * (p * sec).
 Proof.
   intros s Hs k Hk. pattern k. apply natlike_ind; [| |assumption].
-  - replace (s + 0 * (p * sec)) with s by lia. split; auto. rewrite next_regular; auto. lia.
-  - intros x Hx [IH1 IH2]. unfold Z.succ.
-    assert (S1 : sched (s + (x + 1) * (p * sec))). { exists (s + x * (p * sec)). exact IH2. }
+  - intros Hb. replace (s + 0 * (p * sec)) with s in * by lia. split; auto. rewrite next_regular; auto. lia.
+  - intros x Hx IH Hb. unfold Z.succ in *. pose proof sec_pos.
+    destruct IH as [IH1 IH2]; [nia|].
+    assert (S1 : sched (s + (x + 1) * (p * sec))). { exists (s + x * (p * sec)). split; [nia|exact IH2]. }
     split; auto. rewrite next_regular; auto. lia.
 Qed.
 
 Theorem cron_choice_complete_regular : forall fuel created last deadline now,
   (2 <= fuel)%nat ->
   let e := earliest_time created last deadline now true in
+  e <= hi -> now <= hi ->
   (exists s, sched s /\ e < s /\ s <= now) ->
   exists t, next_schedule_time next fuel created last deadline now = NsOk (Some t).
 Proof.
-  intros fuel created last deadline now Hfuel e (s & Hs & Hes & Hsn).
+  intros fuel created last deadline now Hfuel e Hehi Hnow (s & Hs & Hes & Hsn).
   unfold next_schedule_time, most_recent. fold e.
   set (t1 := next e). set (t2 := next t1).
   assert (Ht1 : t1 <= s) by (apply next_least; auto).
   destruct (Z.ltb_spec now t1); [lia|].
   destruct (Z.ltb_spec now t2).
   - cbn [snd]. destruct (Z.ltb_spec now t1); [lia|]. now exists t1.
-  - assert (S1 : sched t1) by now exists e.
-    assert (E2 : t2 = t1 + p * sec) by (apply next_regular; auto).
+  - assert (S1 : sched t1) by (exists e; auto).
+    assert (E2 : t2 = t1 + p * sec) by (apply next_regular; auto; lia).
     pose proof sec_pos as Hsec.
     replace (t2 - t1) with (p * sec) by lia. rewrite round_sec_exact.
     destruct (Z.ltb_spec p 1); [lia|].
@@ -320,9 +390,9 @@ Proof.
     { unfold q. pose proof (Z.mul_div_le E p p_pos). pose proof (Z.mul_succ_div_gt E p p_pos). lia. }
     assert (Hq1 : 1 <= q) by (unfold q; apply Z.div_le_lower_bound; lia).
     replace (t1 + (q + 1 - 2) * p * sec) with (t1 + (q - 1) * (p * sec)) by lia.
-    destruct (regular_iter t1 S1 (q - 1)) as [Sp Np]; [lia|].
+    destruct (regular_iter t1 S1 (q - 1)) as [Sp Np]; [lia|nia|].
     rewrite Np. replace (q - 1 + 1) with q by lia.
-    destruct (regular_iter t1 S1 q) as [Sq Nq]; [lia|].
+    destruct (regular_iter t1 S1 q) as [Sq Nq]; [lia|nia|].
     destruct fuel as [|[|f]]; [lia|lia|].
     cbn [mr_loop].
     destruct (Z.ltb_spec now (t1 + q * (p * sec))); [nia|].
@@ -405,22 +475,27 @@ Proof. intros A n l x Hx. rewrite <- (firstn_skipn n l). apply in_or_app. auto. 
 Section Controller.
 Variable next : Z -> Z.
 Variable lenient : bool.
-Hypothesis next_gt : forall t, t < next t.
-Hypothesis next_sec : forall t, exists k, next t = k * sec.
+(* as in Section Choice: only up to an instant [hi] that bounds the creation
+   time, the last schedule time and every now of the history *)
+Variable hi : Z.
+Hypothesis next_gt : forall t, t <= hi -> t < next t.
+Hypothesis next_sec : forall t, t <= hi -> exists k, next t = k * sec.
 
 (* only [earliest < t] is needed below; it does not use leastness *)
 Lemma chosen_after_earliest : forall fuel created last deadline now t,
+  earliest_time created last deadline now true <= hi -> now <= hi ->
   next_schedule_time next fuel created last deadline now = NsOk (Some t) ->
   earliest_time created last deadline now true < t /\ t <= now.
 Proof.
   intros fuel created last deadline now t. unfold next_schedule_time, most_recent.
   set (e0 := earliest_time created last deadline now true).
-  set (t1 := next e0). set (t2 := next t1).
+  set (t1 := next e0). set (t2 := next t1). intros He0 Hnow.
   destruct (Z.ltb_spec now t1); [discriminate|].
+  assert (Ht1 : t1 <= hi) by lia.
   destruct (Z.ltb_spec now t2); cbn [snd].
-  - destruct (Z.ltb_spec now t1); [discriminate|]. intros E; inversion E; subst. split; [apply next_gt|lia].
-  - assert (Hlt : t1 < t2) by apply next_gt.
-    destruct (catch_up_start t1 t2 now (next_sec e0) (next_sec t1) Hlt H0) as [Htb Hpe].
+  - destruct (Z.ltb_spec now t1); [discriminate|]. intros E; inversion E; subst. split; [apply next_gt; auto|lia].
+  - assert (Hlt : t1 < t2) by (apply next_gt; auto).
+    destruct (catch_up_start t1 t2 now (next_sec e0 He0) (next_sec t1 Ht1) Hlt H0) as [Htb Hpe].
     destruct (Z.ltb_spec (round_sec_s (t2 - t1)) 1); [lia|].
     set (pe := t1 + ((now - t1) / sec / round_sec_s (t2 - t1) + 1 - 2) * round_sec_s (t2 - t1) * sec) in *.
     destruct (mr_loop next fuel now (next pe) None) as [[m|]|] eqn:EL; cbn [snd]; try discriminate.
@@ -428,21 +503,39 @@ Proof.
     assert (G : forall fuel x most r, e0 < x ->
               (forall y, most = Some y -> e0 < y) ->
               mr_loop next fuel now x most = Some r -> forall y, r = Some y -> e0 < y).
-    { clear - next_gt. induction fuel as [|k IH]; intros x most r Hx Hm; cbn [mr_loop].
+    { clear - next_gt Hnow. induction fuel as [|k IH]; intros x most r Hx Hm; cbn [mr_loop].
       - destruct (now <? x); [|discriminate]. intros E y Hy. inversion E; subst. auto.
-      - destruct (now <? x).
+      - destruct (Z.ltb_spec now x).
         + intros E y Hy. inversion E; subst. auto.
-        + apply IH. * pose proof (next_gt x). lia. * intros y Hy. inversion Hy; subst. auto. }
+        + apply IH. * pose proof (next_gt x ltac:(lia)). lia. * intros y Hy. inversion Hy; subst. auto. }
     split; [|assumption].
     eapply (G fuel (next pe) None); [| |exact EL|reflexivity].
-    + pose proof (next_gt e0) as G1. pose proof (next_gt pe) as G2. fold t1 in G1. lia.
+    + pose proof (next_gt e0 He0) as G1. pose proof (next_gt pe ltac:(lia)) as G2. fold t1 in G1. lia.
     + intros ? Hd; discriminate.
 Qed.
 
 Lemma chosen_after_last : forall fuel created l deadline now t,
+  earliest_time created (Some l) deadline now true <= hi -> now <= hi ->
   next_schedule_time next fuel created (Some l) deadline now = NsOk (Some t) -> l < t.
 Proof.
-  intros. apply chosen_after_earliest in H. pose proof (earliest_ge_last created l deadline now true). lia.
+  intros. apply chosen_after_earliest in H1; auto. pose proof (earliest_ge_last created l deadline now true). lia.
+Qed.
+
+(* everything the controller passes to [next] stays below [hi] *)
+Definition bounded (s : cstate) : Prop :=
+  c_created (s_spec s) <= hi /\
+  (forall l, st_last (s_status s) = Some l -> l <= hi) /\
+  (forall d, c_deadline (s_spec s) = Some d -> 0 <= d).
+
+Lemma earliest_le_hi : forall created last deadline now incl,
+  created <= hi -> (forall l, last = Some l -> l <= hi) -> (forall d, deadline = Some d -> 0 <= d) ->
+  now <= hi -> earliest_time created last deadline now incl <= hi.
+Proof.
+  intros created last deadline now incl Hc Hl Hd Hn. unfold earliest_time. pose proof sec_pos.
+  assert (match last with Some l => l | None => created end <= hi).
+  { destruct last as [l|]; auto. }
+  destruct incl; [|assumption]. destruct deadline as [d|]; [|assumption].
+  specialize (Hd d eq_refl). destruct (Z.ltb_spec (match last with Some l => l | None => created end) (now - d * sec)); nia.
 Qed.
 
 (* ---- fin ---- *)
@@ -758,7 +851,8 @@ Definition state_ok (s : cstate) : Prop :=
 
 Lemma reconcile_spec : forall fuel s now fc s' o,
   reconcile next lenient fuel s now fc = (s', o) -> state_ok s -> o_err o <> E_FUEL ->
-  state_ok s' /\ s_spec s' = s_spec s /\
+  bounded s -> now <= hi ->
+  state_ok s' /\ bounded s' /\ s_spec s' = s_spec s /\
   last_le (st_last (s_status s)) (st_last (s_status s')) /\
   Forall (is_hist_victim (s_jobs s)) (o_hist_deletes o) /\
   (o_creates o = [] \/
@@ -773,19 +867,32 @@ Proof.
   destruct (cleanup (s_spec s) (s_status s) (s_jobs s)) as [[[st1 jobs1] hd] upd1] eqn:EC.
   destruct (decide next lenient fuel (s_spec s) st1 jobs1 (s_next_uid s) now fc upd1 hd)
     as [[[st2 jobs2] uid2] o2] eqn:ED.
-  intros E Hok Hfuel; inversion E; subst; clear E.
+  intros E Hok Hfuel (Bc & Bl & Bd) Hnow; inversion E; subst; clear E.
   apply cleanup_spec in EC. destruct EC as (C1 & C2 & C3 & C4).
   assert (Hok1 : uid_ok (s_next_uid s) (st_active st1) jobs1) by (eapply uid_ok_incl; eauto).
   apply decide_spec in ED; auto.
   destruct ED as (Ds & Dh & Du & Dok & Dc).
+  assert (Hehi : earliest_time (c_created (s_spec s)) (st_last (s_status s)) (c_deadline (s_spec s)) now true <= hi)
+    by (apply earliest_le_hi; auto).
   assert (LL : forall x, st_last (s_status s) = Some x -> forall t,
              next_schedule_time next fuel (c_created (s_spec s)) (st_last st1) (c_deadline (s_spec s)) now = NsOk (Some t) -> x < t).
-  { intros x Hx t Ht. rewrite C1, Hx in Ht. now apply chosen_after_last in Ht. }
+  { intros x Hx t Ht. rewrite C1, Hx in Ht. rewrite Hx in Hehi. now apply chosen_after_last in Ht. }
+  assert (LH : forall t,
+             next_schedule_time next fuel (c_created (s_spec s)) (st_last st1) (c_deadline (s_spec s)) now = NsOk (Some t) -> t <= hi).
+  { intros t Ht. rewrite C1 in Ht. apply chosen_after_earliest in Ht; auto. lia. }
   unfold state_ok. cbn [s_next_uid s_status s_jobs s_spec].
   split.
   { destruct ((o_err o =? E_OK) && o_upd o); [exact Dok|].
     destruct Dok as [_ D2]. split; [|exact D2].
     eapply Forall_impl; [|apply Hok]. cbn; intros; lia. }
+  split.
+  { unfold bounded. cbn [s_spec s_status]. split; [exact Bc|]. split; [|exact Bd].
+    destruct ((o_err o =? E_OK) && o_upd o); [|exact Bl].
+    intros l Hl.
+    destruct Dc as [[_ [HL|(t & Ht & HL & _)]]|(t & _ & Ht & _ & _ & HL & _)].
+    - rewrite HL, C1 in Hl. auto.
+    - rewrite HL in Hl. inversion Hl; subst. auto.
+    - rewrite HL in Hl. inversion Hl; subst. auto. }
   split; [reflexivity|].
   rewrite Dh. split; [|split; [exact C4|]].
   - destruct ((o_err o =? E_OK) && o_upd o).
@@ -799,16 +906,26 @@ Proof.
     right. exists t.
     assert (Eok : o_err o = E_OK) by (destruct He; [assumption|contradiction]).
     rewrite Eok, Hupd. cbn.
-    pose proof Ht as Ht'. rewrite C1 in Ht'. apply chosen_after_earliest in Ht'.
+    pose proof Ht as Ht'. rewrite C1 in Ht'. apply chosen_after_earliest in Ht'; auto.
     repeat split; auto; try tauto.
     unfold last_lt. destruct (st_last (s_status s)) as [x|] eqn:Ex; [|exact I]. eapply LL; eauto.
 Qed.
 
 (* ---- histories ---- *)
+Definition op_ok (o : op) : Prop :=
+  match o with
+  | OpReconcile now _ => now <= hi
+  | OpDeadline (Some d) => 0 <= d
+  | _ => True
+  end.
+
+Lemma last_le_refl : forall a, last_le a a.
+Proof. intros [x|]; cbn; auto. exists x. split; auto. lia. Qed.
+
 Lemma step_spec : forall fuel s op s' out,
-  step next lenient fuel s op = (s', out) -> state_ok s ->
+  step next lenient fuel s op = (s', out) -> state_ok s -> bounded s -> op_ok op ->
   (forall o, out = Some o -> o_err o <> E_FUEL) ->
-  state_ok s' /\ last_le (st_last (s_status s)) (st_last (s_status s')) /\
+  state_ok s' /\ bounded s' /\ last_le (st_last (s_status s)) (st_last (s_status s')) /\
   match out with
   | None => True
   | Some o =>
@@ -816,32 +933,36 @@ Lemma step_spec : forall fuel s op s' out,
     exists t, starts o t /\ last_lt (st_last (s_status s)) t /\ st_last (s_status s') = Some t
   end.
 Proof.
-  intros fuel s op s' out. destruct op; cbn [step].
+  intros fuel s op s' out. destruct op; cbn [step op_ok].
   - destruct (reconcile next lenient fuel s now fail_create) as [s1 r] eqn:ER.
-    intros E Hok Hf; inversion E; subst. apply reconcile_spec in ER; auto.
-    destruct ER as (R1 & R2 & R3 & R4 & R5). split; [exact R1|]. split; [exact R3|].
+    intros E Hok Hb Hop Hf; inversion E; subst. apply reconcile_spec in ER; auto.
+    destruct ER as (R1 & RB & R2 & R3 & R4 & R5). split; [exact R1|]. split; [exact RB|]. split; [exact R3|].
     destruct R5 as [R5|(t & ? & ? & ? & ? & ? & ?)]; [left; auto|right; exists t; auto].
-  - intros E Hok _; inversion E; subst. unfold state_ok in *. cbn. split; [|split; auto].
-    + destruct Hok as [H1 H2]. split; auto. rewrite Forall_forall in *. intros x Hx.
-      apply in_map_iff in Hx. destruct Hx as (j & <- & Hj). specialize (H2 j Hj).
-      destruct (j_name j =? name); cbn; auto.
-    + unfold last_le. destruct (st_last (s_status s)); auto. eexists; split; eauto. lia.
-  - intros E Hok _; inversion E; subst. unfold state_ok in *. cbn. split; [|split; auto].
-    + eapply uid_ok_incl; eauto; [apply incl_refl|apply remove_job_incl].
-    + unfold last_le. destruct (st_last (s_status s)); auto. eexists; split; eauto. lia.
+  - intros E Hok Hb _ _; inversion E; subst. unfold state_ok, bounded in *. cbn.
+    split; [|split; [exact Hb|split; [apply last_le_refl|auto]]].
+    destruct Hok as [H1 H2]. split; auto. rewrite Forall_forall in *. intros x Hx.
+    apply in_map_iff in Hx. destruct Hx as (j & <- & Hj). specialize (H2 j Hj).
+    destruct (j_name j =? name); cbn; auto.
+  - intros E Hok Hb _ _; inversion E; subst. unfold state_ok, bounded in *. cbn.
+    split; [|split; [exact Hb|split; [apply last_le_refl|auto]]].
+    eapply uid_ok_incl; eauto; [apply incl_refl|apply remove_job_incl].
   - destruct (find_job (s_jobs s) name).
-    + intros E Hok _; inversion E; subst. split; auto. split; auto.
-      unfold last_le. destruct (st_last (s_status s')); auto. eexists; split; eauto. lia.
-    + intros E Hok _; inversion E; subst. unfold state_ok in *. cbn. split; [|split; auto].
-      * destruct Hok as [H1 H2]. split.
-        -- eapply Forall_impl; [|exact H1]. cbn; intros; lia.
-        -- rewrite Forall_forall in *. intros x Hx. apply insert_job_In in Hx.
-           destruct Hx as [->|Hx]; [cbn; lia|]. specialize (H2 x Hx). lia.
-      * unfold last_le. destruct (st_last (s_status s)); auto. eexists; split; eauto. lia.
-  - intros E Hok _; inversion E; subst. unfold state_ok in *. cbn. split; auto. split; auto.
-    unfold last_le. destruct (st_last (s_status s)); auto. eexists; split; eauto. lia.
-  - intros E Hok _; inversion E; subst. unfold state_ok in *. cbn. split; auto. split; auto.
-    unfold last_le. destruct (st_last (s_status s)); auto. eexists; split; eauto. lia.
+    + intros E Hok Hb _ _; inversion E; subst. split; auto. split; auto. split; [apply last_le_refl|auto].
+    + intros E Hok Hb _ _; inversion E; subst. unfold state_ok, bounded in *. cbn.
+      split; [|split; [exact Hb|split; [apply last_le_refl|auto]]].
+      destruct Hok as [H1 H2]. split.
+      * eapply Forall_impl; [|exact H1]. cbn; intros; lia.
+      * rewrite Forall_forall in *. intros x Hx. apply insert_job_In in Hx.
+        destruct Hx as [->|Hx]; [cbn; lia|]. specialize (H2 x Hx). lia.
+  - intros E Hok Hb _ _; inversion E; subst. unfold state_ok, bounded in *. cbn.
+    split; auto. split; [exact Hb|]. split; [apply last_le_refl|auto].
+  - intros E Hok Hb _ _; inversion E; subst. unfold state_ok, bounded in *. cbn.
+    split; auto. split; [exact Hb|]. split; [apply last_le_refl|auto].
+  - intros E Hok (Bc & Bl & Bd) Hop _; inversion E; subst. unfold state_ok, bounded in *. cbn.
+    split; auto. split; [|split; [apply last_le_refl|auto]].
+    split; [exact Bc|]. split; [exact Bl|]. intros d0 Hd0. subst d. exact Hop.
+  - intros E Hok Hb _ _; inversion E; subst. unfold state_ok, bounded in *. cbn.
+    split; auto. split; [exact Hb|]. split; [apply last_le_refl|auto].
 Qed.
 
 Fixpoint increasing_from (lo : option Z) (l : list Z) : Prop :=
@@ -872,7 +993,7 @@ Qed.
    for which a Create succeeded are strictly increasing: each schedule point
    starts at most one job *)
 Theorem run_created_increasing : forall fuel ops s s' outs,
-  run next lenient fuel s ops = (s', outs) -> state_ok s ->
+  run next lenient fuel s ops = (s', outs) -> state_ok s -> bounded s -> Forall op_ok ops ->
   Forall (fun o => o_err o <> E_FUEL) outs ->
   increasing_from (st_last (s_status s)) (created_times outs).
 Proof.
@@ -880,13 +1001,14 @@ Proof.
   - intros E; inversion E; subst. cbn. auto.
   - destruct (step next lenient fuel s op) as [s1 out] eqn:ES.
     destruct (run next lenient fuel s1 r) as [s2 outs2] eqn:ER.
-    intros E Hok Hf; inversion E; subst; clear E.
+    intros E Hok Hb Hops Hf; inversion E; subst; clear E.
+    inversion Hops as [|? ? Hop Hops']; subst.
     assert (Hf2 : Forall (fun o => o_err o <> E_FUEL) outs2 /\ forall o, out = Some o -> o_err o <> E_FUEL).
     { destruct out; [inversion Hf; subst; split; auto; intros ? Eo; inversion Eo; subst; auto|
                      split; auto; intros ? Eo; discriminate]. }
     destruct Hf2 as [Hf2 Hf1].
-    apply step_spec in ES; auto. destruct ES as (Hok1 & HL & Hout).
-    specialize (IH _ _ _ ER Hok1 Hf2).
+    apply step_spec in ES; auto. destruct ES as (Hok1 & Hb1 & HL & Hout).
+    specialize (IH _ _ _ ER Hok1 Hb1 Hops' Hf2).
     destruct out as [o|]; [|eapply increasing_from_weaken; eauto].
     unfold created_times. cbn [flat_map]. fold (created_times outs2).
     destruct Hout as [Hc|(t & Hs & Hlt & Hlast)].
@@ -895,7 +1017,7 @@ Proof.
 Qed.
 
 Theorem cron_at_most_once : forall fuel ops s s' outs,
-  run next lenient fuel s ops = (s', outs) -> state_ok s ->
+  run next lenient fuel s ops = (s', outs) -> state_ok s -> bounded s -> Forall op_ok ops ->
   Forall (fun o => o_err o <> E_FUEL) outs ->
   NoDup (created_times outs).
 Proof.
@@ -981,9 +1103,9 @@ Proof.
   pose proof (Z.mul_succ_div_gt t sec H0). nia.
 Qed.
 
-Lemma next_pairs_least : forall t s, sched next_pairs s -> t < s -> next_pairs t <= s.
+Lemma next_pairs_least : forall hi t s, sched next_pairs hi s -> t < s -> next_pairs t <= s.
 Proof.
-  intros t s [u <-] Hlt. unfold next_pairs in *. pose proof sec_pos.
+  intros hi t s [u [_ <-]] Hlt. unfold next_pairs in *. pose proof sec_pos.
   assert (Hq : t / sec < nxs (u / sec)). { apply Z.div_lt_upper_bound; lia. }
   pose proof (nxs_least (t / sec) (nxs (u / sec)) (nxs_point _) Hq). nia.
 Qed.
@@ -994,15 +1116,16 @@ Proof. intros t. eexists. reflexivity. Qed.
 (* with an irregular schedule the choice is NOT complete: unmet schedule points
    exist in (earliest, now] and yet nothing is chosen (a missed start) *)
 Theorem cron_complete_refuted :
-  exists next, (forall t, t < next t) /\ (forall t s, sched next s -> t < s -> next t <= s) /\
+  exists next, (forall t, t < next t) /\ (forall hi t s, sched next hi s -> t < s -> next t <= s) /\
                (forall t, exists k, next t = k * sec) /\
   exists fuel created last deadline now,
-    (exists s, sched next s /\ earliest_time created last deadline now true < s /\ s <= now) /\
+    (exists s, sched next now s /\ earliest_time created last deadline now true < s /\ s <= now) /\
     next_schedule_time next fuel created last deadline now = NsOk None.
 Proof.
   exists next_pairs. split; [exact next_pairs_gt|]. split; [exact next_pairs_least|]. split; [exact next_pairs_sec|].
   exists 10%nat, (- sec), None, None, (150 * sec). split.
-  - exists (100 * sec). split; [exists (50 * sec); vm_compute; reflexivity|]. vm_compute. split; [reflexivity|discriminate].
+  - exists (100 * sec). split; [exists (50 * sec); vm_compute; split; [discriminate|reflexivity]|].
+    vm_compute. split; [reflexivity|discriminate].
   - vm_compute. reflexivity.
 Qed.
 
@@ -1154,3 +1277,1042 @@ Proof.
   - destruct fresh as [f|]; cbn; [|reflexivity].
     destruct (Z.leb_spec (fi + t * sec) now); [lia|]. cbn. reflexivity.
 Qed.
+
+(* ------------------------------------------------------------------ *)
+(* The schedule table the correspondence runs with meets the (windowed) *)
+(* hypotheses, and the fuel the entry point gives is enough             *)
+(* ------------------------------------------------------------------ *)
+
+Definition tbl_ok (tbl : list Z) : Prop :=
+  increasing tbl = true /\ Forall (fun p => exists k, p = k * sec) tbl.
+
+Lemma increasing_tail : forall a l, increasing (a :: l) = true ->
+  increasing l = true /\ Forall (fun q => a < q) l.
+Proof.
+  intros a l. revert a. induction l as [|b r IH]; intros a H; [split; [reflexivity|constructor]|].
+  cbn [increasing] in H. apply andb_prop in H. destruct H as [Hab Hr]. apply Z.ltb_lt in Hab.
+  split; [exact Hr|]. destruct (IH b Hr) as [_ F]. constructor; [exact Hab|].
+  eapply Forall_impl; [|exact F]. cbn; intros; lia.
+Qed.
+
+(* next_tbl answers the first table point after t, when there is one *)
+Lemma next_tbl_spec : forall tbl t, increasing tbl = true -> (exists p, In p tbl /\ t < p) ->
+  In (next_tbl tbl t) tbl /\ t < next_tbl tbl t /\ forall q, In q tbl -> t < q -> next_tbl tbl t <= q.
+Proof.
+  induction tbl as [|a r IH]; intros t Hinc (p & Hp & Hlt); [destruct Hp|].
+  destruct (increasing_tail a r Hinc) as [Hr Ha]. cbn [next_tbl].
+  destruct (Z.ltb_spec t a).
+  - split; [left; reflexivity|]. split; [assumption|].
+    intros q [<-|Hq] Hq2; [lia|]. rewrite Forall_forall in Ha. specialize (Ha q Hq). lia.
+  - assert (Hex : exists p, In p r /\ t < p).
+    { destruct Hp as [<-|Hp]; [lia|]. exists p. auto. }
+    destruct (IH t Hr Hex) as (I1 & I2 & I3). split; [right; exact I1|]. split; [exact I2|].
+    intros q [<-|Hq] Hq2; [lia|]. auto.
+Qed.
+
+Theorem next_tbl_window : forall tbl hi, tbl_ok tbl -> (exists p, In p tbl /\ hi < p) ->
+  (forall t, t <= hi -> t < next_tbl tbl t) /\
+  (forall t s, t <= hi -> sched (next_tbl tbl) hi s -> t < s -> next_tbl tbl t <= s) /\
+  (forall t, t <= hi -> exists k, next_tbl tbl t = k * sec).
+Proof.
+  intros tbl hi [Hinc Hsec] (p & Hp & Hhi).
+  assert (Hex : forall t, t <= hi -> exists p, In p tbl /\ t < p) by (intros t Ht; exists p; split; [auto|lia]).
+  split; [|split].
+  - intros t Ht. apply next_tbl_spec; auto.
+  - intros t s Ht (u & Hu & <-) Hlt.
+    destruct (next_tbl_spec tbl u Hinc (Hex u Hu)) as (I1 & _ & _).
+    destruct (next_tbl_spec tbl t Hinc (Hex t Ht)) as (_ & _ & L). apply L; auto.
+  - intros t Ht. destruct (next_tbl_spec tbl t Hinc (Hex t Ht)) as (I1 & _ & _).
+    rewrite Forall_forall in Hsec. apply Hsec; auto.
+Qed.
+
+(* fuel: every iteration of the catch-up loop moves to a later table point *)
+Definition later (t : Z) (tbl : list Z) : nat := length (filter (fun p => t <? p) tbl).
+
+Lemma later_step : forall tbl t u, In u tbl -> t < u -> (later u tbl < later t tbl)%nat.
+Proof.
+  unfold later. induction tbl as [|a r IH]; intros t u Hu Hlt; [destruct Hu|].
+  assert (Mono : forall l : list Z, (length (filter (fun p => Z.ltb u p) l) <= length (filter (fun p => Z.ltb t p) l))%nat).
+  { induction l as [|x l IHl]; cbn; [lia|].
+    destruct (Z.ltb_spec u x), (Z.ltb_spec t x); cbn; lia. }
+  cbn. destruct Hu as [<-|Hu].
+  - rewrite Z.ltb_irrefl. destruct (Z.ltb_spec t a); [|lia]. cbn. specialize (Mono r). lia.
+  - specialize (IH t u Hu Hlt). destruct (Z.ltb_spec u a), (Z.ltb_spec t a); cbn; lia.
+Qed.
+
+Lemma mr_loop_tbl_fuel : forall tbl now, increasing tbl = true -> (exists p, In p tbl /\ now < p) ->
+  forall fuel t most, (later t tbl < fuel)%nat \/ now < t -> mr_loop (next_tbl tbl) fuel now t most <> None.
+Proof.
+  intros tbl now Hinc (p & Hp & Hnow). induction fuel as [|f IH]; intros t most Hf; cbn [mr_loop].
+  - destruct (Z.ltb_spec now t); [discriminate|]. destruct Hf; lia.
+  - destruct (Z.ltb_spec now t); [discriminate|].
+    destruct (next_tbl_spec tbl t Hinc) as (I1 & I2 & _); [exists p; split; [auto|lia]|].
+    apply IH. destruct (Z.ltb_spec now (next_tbl tbl t)); [right; assumption|left].
+    pose proof (later_step tbl t _ I1 I2). destruct Hf; lia.
+Qed.
+
+Lemma later_le : forall t tbl, (later t tbl <= length tbl)%nat.
+Proof. intros t tbl. unfold later. induction tbl as [|a r IH]; cbn; [lia|]. destruct (t <? a); cbn; lia. Qed.
+
+Theorem most_recent_tbl_no_fuel : forall tbl created last deadline now incl,
+  increasing tbl = true -> (exists p, In p tbl /\ now < p) ->
+  snd (most_recent (next_tbl tbl) (S (S (S (length tbl)))) created last deadline now incl) <> MrFuel.
+Proof.
+  intros tbl created last deadline now incl Hinc Hex. unfold most_recent.
+  set (e0 := earliest_time created last deadline now incl).
+  set (t1 := next_tbl tbl e0). set (t2 := next_tbl tbl t1).
+  destruct (now <? t1); [cbn; discriminate|].
+  destruct (now <? t2); [cbn; discriminate|].
+  destruct (round_sec_s (t2 - t1) <? 1); [cbn; discriminate|].
+  match goal with |- context [mr_loop ?n ?f ?a ?b ?c] => destruct (mr_loop n f a b c) eqn:EL end;
+    [cbn; discriminate|].
+  exfalso. revert EL. apply mr_loop_tbl_fuel; auto. left.
+  match goal with |- (later ?x _ < _)%nat => pose proof (later_le x tbl) end. lia.
+Qed.
+
+Lemma nst_tbl_no_fuel : forall tbl c l d now,
+  increasing tbl = true -> (exists p, In p tbl /\ now < p) ->
+  next_schedule_time (next_tbl tbl) (S (S (S (length tbl)))) c l d now <> NsFuel.
+Proof.
+  intros tbl c l d now Hi Hex. unfold next_schedule_time.
+  pose proof (most_recent_tbl_no_fuel tbl c l d now true Hi Hex) as H.
+  destruct (snd (most_recent (next_tbl tbl) (S (S (S (length tbl)))) c l d now true)) as [| |[t|] m];
+    try discriminate; [congruence|]. destruct (now <? t); discriminate.
+Qed.
+
+Lemma requeue_tbl_some : forall tbl c l d now,
+  increasing tbl = true -> (exists p, In p tbl /\ now < p) ->
+  requeue_after (next_tbl tbl) (S (S (S (length tbl)))) c l d now <> None.
+Proof.
+  intros tbl c l d now Hi Hex. unfold requeue_after.
+  pose proof (most_recent_tbl_no_fuel tbl c l d now false Hi Hex) as H.
+  destruct (most_recent (next_tbl tbl) (S (S (S (length tbl)))) c l d now false) as [e [| |[t|] [| |]]];
+    cbn in H; try discriminate; congruence.
+Qed.
+
+Lemma decide_tbl_no_fuel : forall tbl lenient spec st jobs uid now fc upd0 hd st' jobs' uid' o,
+  increasing tbl = true -> (exists p, In p tbl /\ now < p) ->
+  decide (next_tbl tbl) lenient (S (S (S (length tbl)))) spec st jobs uid now fc upd0 hd = (st', jobs', uid', o) ->
+  o_err o <> E_FUEL.
+Proof.
+  intros until o. intros Hi Hex E.
+  pose proof (nst_tbl_no_fuel tbl (c_created spec) (st_last st) (c_deadline spec) now Hi Hex) as N.
+  assert (R : forall l, requeue_after (next_tbl tbl) (S (S (S (length tbl)))) (c_created spec) l (c_deadline spec) now <> None)
+    by (intros; apply requeue_tbl_some; auto).
+  unfold decide, create_job, fin in E.
+  repeat match type of E with
+         | context [match ?x with _ => _ end] => destruct x eqn:?
+         end;
+    inversion E; subst; cbn [o_err];
+    try (intro HH; cbv in HH; discriminate HH);
+    try congruence;
+    try (exfalso; eapply R; eassumption).
+Qed.
+
+Lemma run_tbl_no_fuel : forall tbl lenient hi, increasing tbl = true -> (exists p, In p tbl /\ hi < p) ->
+  forall ops s s' outs,
+  run (next_tbl tbl) lenient (S (S (S (length tbl)))) s ops = (s', outs) -> Forall (op_ok hi) ops ->
+  Forall (fun o => o_err o <> E_FUEL) outs.
+Proof.
+  intros tbl lenient hi Hi (p & Hp & Hhi). induction ops as [|op r IH]; cbn [run]; intros s s' outs.
+  - intros E _; inversion E; subst. constructor.
+  - destruct (step (next_tbl tbl) lenient (S (S (S (length tbl)))) s op) as [s1 out] eqn:ES.
+    destruct (run (next_tbl tbl) lenient (S (S (S (length tbl)))) s1 r) as [s2 outs2] eqn:ER.
+    intros E Hops; inversion E; subst; clear E. inversion Hops as [|? ? Hop Hops']; subst.
+    specialize (IH _ _ _ ER Hops').
+    destruct out as [o|]; [|exact IH]. constructor; [|exact IH].
+    destruct op; cbn [step] in ES; try (inversion ES; fail);
+      try (destruct (find_job (s_jobs s) name); inversion ES; fail).
+    unfold reconcile in ES.
+    destruct (cleanup (s_spec s) (s_status s) (s_jobs s)) as [[[st1 jobs1] hd] upd1].
+    destruct (decide (next_tbl tbl) lenient (S (S (S (length tbl)))) (s_spec s) st1 jobs1 (s_next_uid s) now fail_create upd1 hd)
+      as [[[st2 jobs2] uid2] o2] eqn:ED.
+    inversion ES; subst. eapply decide_tbl_no_fuel; [exact Hi| |exact ED].
+    exists p. split; [auto|]. cbn in Hop. lia.
+Qed.
+
+(* the instantiation the correspondence runs: a schedule table that extends
+   beyond every instant of the history, the entry point's fuel - and no fuel
+   hypothesis left *)
+Theorem cron_at_most_once_tbl : forall tbl lenient hi ops s s' outs,
+  tbl_ok tbl -> (exists p, In p tbl /\ hi < p) ->
+  run (next_tbl tbl) lenient (S (S (S (length tbl)))) s ops = (s', outs) ->
+  state_ok s -> bounded hi s -> Forall (op_ok hi) ops ->
+  NoDup (created_times outs).
+Proof.
+  intros tbl lenient hi ops s s' outs Hok Hex ER Hs Hb Hops.
+  destruct (next_tbl_window tbl hi Hok Hex) as (G & _ & S).
+  eapply (cron_at_most_once (next_tbl tbl) lenient hi G S); eauto.
+  eapply run_tbl_no_fuel; eauto. apply Hok.
+Qed.
+
+(* ------------------------------------------------------------------ *)
+(* Live runs: a reference to an unfinished job of this CronJob survives  *)
+(* the clean-up, so Forbid holds against it; adoption by name            *)
+(* ------------------------------------------------------------------ *)
+
+Definition uids_unique (jobs : list job) : Prop :=
+  forall a b, In a jobs -> In b jobs -> j_uid a = j_uid b -> a = b.
+
+Lemma del_active_keeps : forall a u r, In r a -> r_uid r <> u -> In r (del_active a u).
+Proof.
+  intros a u r Hr Hu. unfold del_active. apply filter_In. split; auto.
+  destruct (Z.eqb_spec (r_uid r) u); [contradiction|reflexivity].
+Qed.
+
+Lemma pf_step_active : forall acc j st upd succ failed,
+  pf_step acc j = (st, upd, succ, failed) ->
+  let '(st0, _, _, _) := acc in
+  st_active st = st_active st0 \/
+  (finished (j_phase j) = true /\ st_active st = del_active (st_active st0) (j_uid j)).
+Proof.
+  intros [[[st0 upd0] succ0] failed0] j st upd succ failed. unfold pf_step.
+  assert (Close : forall st1 succ1 failed1 upd1,
+    (st_active st1 = st_active st0 \/
+     (finished (j_phase j) = true /\ st_active st1 = del_active (st_active st0) (j_uid j))) ->
+    (st1, upd1, succ1, failed1) = (st, upd, succ, failed) ->
+    st_active st = st_active st0 \/
+    (finished (j_phase j) = true /\ st_active st = del_active (st_active st0) (j_uid j))).
+  { intros ? ? ? ? ? E; inversion E; subst; auto. }
+  intros E.
+  destruct (st_last_success st0) as [ls|] eqn:Els; destruct (j_finish j) as [f|] eqn:Efin;
+    destruct (in_active (st_active st0) (j_uid j)) eqn:Eia; destruct (j_phase j) eqn:Ep;
+    cbn [finished] in E; cbn -[Z.ltb after_ls] in E;
+    repeat (rewrite ?Els in E; cbn -[Z.ltb after_ls] in E);
+    repeat match type of E with context [if ?b then _ else _] => destruct b end;
+    cbn -[Z.ltb after_ls] in E;
+    (eapply Close; [|exact E]); cbn; auto.
+Qed.
+
+Lemma pf_fold_gen : forall l acc,
+  let '(s1, _, su1, fa1) := fold_left pf_step l acc in
+  let '(s0, _, su0, fa0) := acc in
+  (forall x, In x su1 \/ In x fa1 -> In x su0 \/ In x fa0 \/ (In x l /\ finished (j_phase x) = true)) /\
+  (forall r, In r (st_active s0) ->
+             (forall j, In j l -> finished (j_phase j) = true -> j_uid j <> r_uid r) -> In r (st_active s1)).
+Proof.
+  induction l as [|j r IH]; intros [[[s0 u0] su0] fa0]; cbn [fold_left].
+  - split; [tauto|auto].
+  - destruct (pf_step (s0, u0, su0, fa0) j) as [[[sa ua] sua] faa] eqn:EP.
+    specialize (IH (sa, ua, sua, faa)).
+    destruct (fold_left pf_step r (sa, ua, sua, faa)) as [[[s1 u1] su1] fa1].
+    destruct IH as [IH1 IH2].
+    pose proof (pf_step_inv _ _ _ _ _ _ EP) as (_ & _ & P3 & P4).
+    pose proof (pf_step_active _ _ _ _ _ _ EP) as PA. cbn in PA.
+    split.
+    + intros x Hx. destruct (IH1 x Hx) as [H|[H|[H1 H2]]].
+      * destruct (P3 x H) as [H'|[-> Hp]]; [auto|]. right; right. split; [left; auto|]. now rewrite Hp.
+      * destruct (P4 x H) as [H'|[-> Hp]]; [auto|]. right; right. split; [left; auto|]. now rewrite Hp.
+      * right; right. split; [right; auto|auto].
+    + intros rf Hr Hsafe. apply IH2.
+      * destruct PA as [->|[Hf ->]]; [exact Hr|]. apply del_active_keeps; auto.
+        intro Heq. apply (Hsafe j (or_introl eq_refl) Hf). auto.
+      * intros j' Hj'. apply Hsafe. right; auto.
+Qed.
+
+Lemma delete_each_keeps : forall victims st jobs dels upd st' jobs' dels' upd' r,
+  delete_each victims st jobs dels upd = (st', jobs', dels', upd') ->
+  In r (st_active st) -> (forall v, In v victims -> j_uid v <> r_uid r) -> In r (st_active st').
+Proof.
+  induction victims as [|v vs IH]; cbn; intros until r.
+  - intros E; inversion E; subst. auto.
+  - intros E Hr Hs. destruct (find_job jobs (j_name v)); eapply IH in E; eauto.
+    cbn. apply del_active_keeps; auto. intro Heq. apply (Hs v); auto.
+Qed.
+
+Lemma remove_oldest_keeps : forall js limit st jobs dels upd st' jobs' dels' upd' r,
+  remove_oldest js limit st jobs dels upd = (st', jobs', dels', upd') ->
+  In r (st_active st) -> (forall v, In v js -> j_uid v <> r_uid r) -> In r (st_active st').
+Proof.
+  intros until r. unfold remove_oldest. destruct limit as [mx|]; [|intros E; inversion E; subst; auto].
+  destruct (Z.of_nat (length js) - mx <=? 0); [intros E; inversion E; subst; auto|].
+  intros E Hr Hs. eapply delete_each_keeps; eauto.
+  intros v Hv. apply Hs. apply sort_jobs_incl. eapply firstn_incl; eauto.
+Qed.
+
+Lemma process_finished_keeps : forall spec st jobs st' jobs' hd upd r,
+  process_finished spec st (mine_of jobs) jobs = (st', jobs', hd, upd) ->
+  In r (st_active st) ->
+  (forall j, In j jobs -> finished (j_phase j) = true -> j_uid j <> r_uid r) ->
+  In r (st_active st').
+Proof.
+  intros until r. unfold process_finished.
+  pose proof (pf_fold_gen (mine_of jobs) (st, false, [], [])) as G.
+  destruct (fold_left pf_step (mine_of jobs) (st, false, [], [])) as [[[st1 upd1] succ] failed].
+  destruct G as [G1 G2]. intros E Hr Hsafe.
+  assert (Hr1 : In r (st_active st1)).
+  { apply G2; auto. intros j Hj. apply Hsafe. apply mine_of_In in Hj. tauto. }
+  assert (Hv : forall v, In v succ \/ In v failed -> j_uid v <> r_uid r).
+  { intros v Hv. destruct (G1 v Hv) as [[]|[[]|[Hm Hf]]]. apply Hsafe; auto. apply mine_of_In in Hm. tauto. }
+  destruct (c_fail_limit spec), (c_succ_limit spec);
+    try (inversion E; subst; exact Hr1);
+    destruct (remove_oldest succ _ st1 jobs [] upd1) as [[[st2 jobs2] dels2] upd2] eqn:ER1;
+    eapply remove_oldest_keeps in E; eauto; eapply remove_oldest_keeps; eauto.
+Qed.
+
+Lemma as_del_keeps : forall s u r, In r (as_cur s) -> r_uid r <> u -> In r (as_cur (as_del s u)).
+Proof.
+  intros s u r Hr Hu. destruct (as_cur_del s u) as [->| ->]; auto.
+  apply filter_In. split; auto. destruct (Z.eqb_spec (r_uid r) u); [contradiction|reflexivity].
+Qed.
+
+Lemma clean_stale_keeps : forall lister mine a a' upd r,
+  clean_stale lister mine a = (a', upd) -> In r a -> In (r_uid r) (map j_uid mine) -> In r a'.
+Proof.
+  intros lister mine a a' upd r. unfold clean_stale.
+  destruct (fold_left (stale_step lister (map j_uid mine)) (seq 0 (length a)) (as_of a, false)) as [s u] eqn:EF.
+  intros E Hr Hm; inversion E; subst.
+  assert (G : In r (as_cur (fst (fold_left (stale_step lister (map j_uid mine)) (seq 0 (length a)) (as_of a, false))))).
+  { apply (fold_left_inv (fun acc : aslice * bool => In r (as_cur (fst acc)))).
+    - cbn [fst]. rewrite as_cur_of. exact Hr.
+    - intros [s0 u0] i H. cbn [fst] in *. unfold stale_step.
+      destruct (nth_error (bk s0) i) as [r'|]; [|exact H].
+      destruct (existsb (Z.eqb (r_uid r')) (map j_uid mine)) eqn:Eex; [exact H|].
+      assert (Hne : r_uid r <> r_uid r').
+      { intro Heq. assert (existsb (Z.eqb (r_uid r')) (map j_uid mine) = true); [|congruence].
+        apply existsb_exists. exists (r_uid r). split; auto. rewrite Heq. apply Z.eqb_refl. }
+      destruct (find_job lister (r_name r')) as [j|].
+      + destruct (j_uid j =? r_uid r'); [exact H|]. cbn [fst]. apply as_del_keeps; auto.
+      + cbn [fst]. apply as_del_keeps; auto. }
+  rewrite EF in G. exact G.
+Qed.
+
+(* a reference to a live run (an unfinished job of this CronJob on the server,
+   UIDs being unique) survives both halves of the clean-up *)
+Lemma cleanup_keeps_live : forall spec st jobs st' jobs' hd upd r j,
+  cleanup spec st jobs = (st', jobs', hd, upd) -> uids_unique jobs ->
+  In r (st_active st) -> In j jobs -> j_owner j = OwnThis -> finished (j_phase j) = false ->
+  j_uid j = r_uid r -> In r (st_active st').
+Proof.
+  intros until j. unfold cleanup.
+  destruct (process_finished spec st (mine_of jobs) jobs) as [[[st1 jobs1] hd1] upd1] eqn:EP.
+  destruct (clean_stale jobs (mine_of jobs) (st_active st1)) as [a2 upd2] eqn:EC.
+  intros E Hu Hr Hj Ho Hf Hid; inversion E; subst. cbn.
+  eapply clean_stale_keeps; eauto.
+  - eapply process_finished_keeps; eauto.
+    intros j' Hj' Hf' Heq. assert (j' = j) by (apply Hu; auto; congruence). subst. congruence.
+  - apply in_map_iff. exists j. split; auto. unfold mine_of. apply filter_In. split; auto. now rewrite Ho.
+Qed.
+
+(* Forbid against live runs: whatever status the reconcile starts from (fresh
+   or stale), if it references an unfinished job of this CronJob that is on the
+   server, no job is started *)
+Lemma cleanup2_keeps_live : forall spec st srv jobs st' jobs' hd upd r j,
+  cleanup2 spec st srv jobs = (st', jobs', hd, upd) -> uids_unique jobs ->
+  In r (st_active st) -> In j jobs -> j_owner j = OwnThis -> finished (j_phase j) = false ->
+  j_uid j = r_uid r -> In r (st_active st').
+Proof.
+  intros until j. unfold cleanup2.
+  destruct (process_finished spec st (mine_of jobs) jobs) as [[[st1 jobs1] hd1] upd1] eqn:EP.
+  intros E Hu Hr Hj Ho Hf Hid.
+  assert (Hr1 : In r (st_active st1)).
+  { eapply process_finished_keeps; eauto.
+    intros j' Hj' Hf' Heq. assert (j' = j) by (apply Hu; auto; congruence). subst. congruence. }
+  destruct (switched (mine_of jobs) (st_active st1) srv).
+  - destruct (clean_stale jobs (mine_of jobs) srv). inversion E; subst. exact Hr1.
+  - destruct (clean_stale jobs (mine_of jobs) (st_active st1)) as [a2 upd2] eqn:EC.
+    inversion E; subst. cbn. eapply clean_stale_keeps; eauto.
+    apply in_map_iff. exists j. split; auto. unfold mine_of. apply filter_In. split; auto. now rewrite Ho.
+Qed.
+
+Theorem cron_forbid_live : forall next lenient fuel s st_in ok now fc s' o r j,
+  reconcile_from next lenient fuel s st_in ok now fc = (s', o) ->
+  c_policy (s_spec s) = Forbid -> uids_unique (s_jobs s) ->
+  In r (st_active st_in) -> In j (s_jobs s) -> j_owner j = OwnThis -> finished (j_phase j) = false ->
+  j_uid j = r_uid r ->
+  o_creates o = [].
+Proof.
+  intros until j. unfold reconcile_from.
+  destruct (cleanup2 (s_spec s) st_in (st_active (s_status s)) (s_jobs s)) as [[[st1 jobs1] hd] upd1] eqn:EC.
+  destruct (decide next lenient fuel (s_spec s) st1 jobs1 (s_next_uid s) now fc upd1 hd)
+    as [[[st2 jobs2] uid2] o2] eqn:ED.
+  intros E HF Hu Hr Hj Ho Hf Hid; inversion E; subst.
+  eapply cron_forbid; [exact ED|exact HF|].
+  pose proof (cleanup2_keeps_live _ _ _ _ _ _ _ _ r j EC Hu Hr Hj Ho Hf Hid) as Hin.
+  intro Hnil. rewrite Hnil in Hin. destruct Hin.
+Qed.
+
+(* adoption by name: createJob hits AlreadyExists on a job that this CronJob
+   owns and that is still unfinished (and the job client can fetch it): nothing
+   is created, the job is referenced in status.active afterwards, and - unless
+   it was referenced already - lastScheduleTime is set and the update requested *)
+Theorem cron_adoption : forall next fuel spec now hd t st1 jobs1 uid upd1 rd st' jobs' uid' o ex,
+  create_job next true fuel spec now hd false t st1 jobs1 uid upd1 rd = (st', jobs', uid', o) ->
+  find_job jobs1 (job_name_of t) = Some ex -> j_owner ex = OwnThis -> finished (j_phase ex) = false ->
+  o_creates o = [] /\ jobs' = jobs1 /\
+  In (mkRef (job_name_of t) (j_uid ex)) (st_active st') \/
+  (o_creates o = [] /\ jobs' = jobs1 /\ in_active (st_active st1) (j_uid ex) = true /\ st_active st' = st_active st1).
+Proof.
+  intros until ex. intros E Hf Ho Hu. unfold create_job in E. rewrite Hf, Ho, Hu in E. cbn [negb] in E.
+  destruct (in_active (st_active st1) (j_uid ex)) eqn:Ea;
+    unfold fin in E;
+    match type of E with context [match ?x with _ => _ end] => destruct x end;
+    inversion E; subst; cbn.
+  - right. auto.
+  - right. auto.
+  - left. repeat split; auto. apply in_or_app. right. left. reflexivity.
+  - left. repeat split; auto. apply in_or_app. right. left. reflexivity.
+Qed.
+
+Theorem cron_adoption_records : forall next fuel spec now hd t st1 jobs1 uid upd1 rd st' jobs' uid' o ex,
+  create_job next true fuel spec now hd false t st1 jobs1 uid upd1 rd = (st', jobs', uid', o) ->
+  find_job jobs1 (job_name_of t) = Some ex -> j_owner ex = OwnThis -> finished (j_phase ex) = false ->
+  in_active (st_active st1) (j_uid ex) = false ->
+  st_last st' = Some t /\ o_upd o = true /\ (o_err o = E_OK \/ o_err o = E_FUEL) /\ o_status o = st'.
+Proof.
+  intros until ex. intros E Hf Ho Hu Ha. unfold create_job in E. rewrite Hf, Ho, Hu, Ha in E. cbn [negb] in E.
+  apply fin_spec in E. destruct E as (-> & -> & -> & Ec & Es & Eu & Eh & Er & Ee). cbn. auto.
+Qed.
+
+(* foreign or finished conflicting jobs stay report-only: nothing is created,
+   nothing is recorded *)
+Theorem cron_conflict_foreign : forall next lenient fuel spec now hd t st1 jobs1 uid upd1 rd st' jobs' uid' o ex,
+  create_job next lenient fuel spec now hd false t st1 jobs1 uid upd1 rd = (st', jobs', uid', o) ->
+  find_job jobs1 (job_name_of t) = Some ex -> (j_owner ex <> OwnThis \/ finished (j_phase ex) = true) ->
+  o_creates o = [] /\ st' = st1 /\ jobs' = jobs1.
+Proof.
+  intros until ex. intros E Hf Hc. unfold create_job in E. rewrite Hf in E.
+  destruct lenient; cbn [negb] in E; [|inversion E; subst; auto].
+  destruct (j_owner ex) eqn:Eo; try (apply fin_spec in E; destruct E as (-> & -> & -> & Ec & _); auto).
+  destruct (finished (j_phase ex)) eqn:Ef; [apply fin_spec in E; destruct E as (-> & -> & -> & Ec & _); auto|].
+  destruct Hc as [Hc|Hc]; [contradiction|discriminate].
+Qed.
+
+(* ------------------------------------------------------------------ *)
+(* No orphans over histories: every unfinished job of this CronJob on   *)
+(* the server is referenced in status.active                            *)
+(* ------------------------------------------------------------------ *)
+
+Definition live (j : job) : Prop := j_owner j = OwnThis /\ finished (j_phase j) = false.
+
+Definition no_orphan (a : list jref) (jobs : list job) : Prop :=
+  forall j, In j jobs -> live j -> exists r, In r a /\ r_uid r = j_uid j.
+
+Lemma uids_unique_incl : forall js js', uids_unique js -> incl js' js -> uids_unique js'.
+Proof. intros js js' H I a b Ha Hb. apply H; auto. Qed.
+
+Lemma remove_job_name : forall js n j, In j (remove_job js n) -> j_name j <> n.
+Proof.
+  intros js n j H. unfold remove_job in H. apply filter_In in H. destruct H as [_ H].
+  destruct (Z.eqb_spec (j_name j) n); [discriminate|assumption].
+Qed.
+
+Lemma replace_loop_keeps : forall idx s jobs dels upd s' jobs' dels' upd' ok r,
+  replace_loop idx s jobs dels upd = (s', jobs', dels', upd', ok) -> uids_unique jobs ->
+  In r (as_cur s) -> (exists j, In j jobs' /\ j_uid j = r_uid r) -> In r (as_cur s').
+Proof.
+  induction idx as [|i rest IH]; cbn; intros until r.
+  - intros E; inversion E; subst. auto.
+  - destruct (nth_error (bk s) i) as [r'|]; [|intros E; inversion E; subst; auto].
+    destruct (find_job jobs (r_name r')) as [j'|] eqn:EF; [|intros E; inversion E; subst; auto].
+    intros E Hu Hr (j & Hj & Hid).
+    pose proof (replace_loop_incl _ _ _ _ _ _ _ _ _ _ E) as [_ I2].
+    eapply IH; [exact E| | |exists j; auto].
+    + eapply uids_unique_incl; [exact Hu|apply remove_job_incl].
+    + apply as_del_keeps; auto. intro Heq.
+      apply find_job_In in EF. destruct EF as [Hj' Hn'].
+      assert (Hjr : In j (remove_job jobs (r_name r'))) by (apply I2; auto).
+      assert (j = j') by (apply Hu; auto; [apply (remove_job_incl _ _ _ Hjr)|congruence]).
+      subst. apply remove_job_name in Hjr. contradiction.
+Qed.
+
+Lemma apply_policy_keeps : forall spec st jobs upd0 skip st1 jobs1 rd upd1 ok r,
+  apply_policy spec st jobs upd0 = (skip, st1, jobs1, rd, upd1, ok) -> uids_unique jobs ->
+  In r (st_active st) -> (exists j, In j jobs1 /\ j_uid j = r_uid r) -> In r (st_active st1).
+Proof.
+  intros until r. unfold apply_policy. destruct (c_policy spec).
+  - intros E; inversion E; subst; auto.
+  - destruct (st_active st) eqn:Ea; intros E Hu Hr Hex; inversion E; subst; rewrite Ea; exact Hr.
+  - destruct (replace_loop (seq 0 (length (st_active st))) (as_of (st_active st)) jobs [] false)
+      as [[[[s j'] d'] u'] o'] eqn:ER.
+    intros E Hu Hr Hex; inversion E; subst. cbn.
+    eapply replace_loop_keeps; eauto. now rewrite as_cur_of.
+Qed.
+
+(* what createJob does to the server and to status.active *)
+Lemma create_job_shape : forall next lenient fuel spec now hd fc t st1 jobs1 uid upd1 rd st' jobs' uid' o,
+  create_job next lenient fuel spec now hd fc t st1 jobs1 uid upd1 rd = (st', jobs', uid', o) ->
+  (forall r, In r (st_active st1) -> In r (st_active st')) /\
+  (jobs' = jobs1 \/
+   (jobs' = insert_job (mkJob (job_name_of t) uid OwnThis PhOther (Some now) None) jobs1 /\
+    (in_active (st_active st1) uid = false -> In (mkRef (job_name_of t) uid) (st_active st')))).
+Proof.
+  intros until o. unfold create_job, fin. intros E.
+  repeat match type of E with
+         | context [match ?x with _ => _ end] => destruct x eqn:?
+         end;
+    inversion E; subst; cbn; (split; [intros; try apply in_or_app; auto|]); auto;
+    right; split; auto; intros; try congruence; apply in_or_app; right; left; reflexivity.
+Qed.
+
+Lemma create_job_creates : forall next lenient fuel spec now hd fc t st1 jobs1 uid upd1 rd st' jobs' uid' o,
+  create_job next lenient fuel spec now hd fc t st1 jobs1 uid upd1 rd = (st', jobs', uid', o) ->
+  o_creates o = [] -> jobs' = jobs1.
+Proof.
+  intros until o. unfold create_job, fin. intros E.
+  repeat match type of E with
+         | context [match ?x with _ => _ end] => destruct x eqn:?
+         end;
+    inversion E; subst; cbn; intros; auto; discriminate.
+Qed.
+
+Lemma decide_keeps : forall next lenient fuel spec st jobs uid now fc upd0 hd st' jobs' uid' o,
+  decide next lenient fuel spec st jobs uid now fc upd0 hd = (st', jobs', uid', o) ->
+  uids_unique jobs -> uid_ok uid (st_active st) jobs ->
+  (forall r j, In r (st_active st) -> In j jobs -> In j jobs' -> j_uid j = r_uid r -> In r (st_active st')) /\
+  (exists nj, j_uid nj = uid /\
+     forall j, In j jobs' -> In j jobs \/ (j = nj /\ exists r, In r (st_active st') /\ r_uid r = uid)) /\
+  (o_creates o = [] -> incl jobs' jobs).
+Proof.
+  intros until o. intros E Hu Hok. unfold decide in E.
+  pose (dummy := mkJob 0 uid OwnNone PhOther None None).
+  assert (Same : forall st2 jobs2 o2, (forall r, In r (st_active st) -> In r (st_active st2)) -> incl jobs2 jobs ->
+    (forall r j, In r (st_active st) -> In j jobs -> In j jobs2 -> j_uid j = r_uid r -> In r (st_active st2)) /\
+    (exists nj, j_uid nj = uid /\
+       forall j, In j jobs2 -> In j jobs \/ (j = nj /\ exists r, In r (st_active st2) /\ r_uid r = uid)) /\
+    (o_creates o2 = [] -> incl jobs2 jobs)).
+  { intros st2 jobs2 o2 H1 H2. split; [intros; auto|]. split; [|auto].
+    exists dummy. split; [reflexivity|]. intros j Hj; left; auto. }
+  destruct (c_suspend spec); [inversion E; subst; apply Same; auto; apply incl_refl|].
+  destruct (negb (c_tz_ok spec)); [inversion E; subst; apply Same; auto; apply incl_refl|].
+  destruct (next_schedule_time next fuel (c_created spec) (st_last st) (c_deadline spec) now) as [| |[t|]];
+    try (inversion E; subst; apply Same; auto; apply incl_refl);
+    try (apply fin_spec in E; destruct E as (-> & -> & -> & _); apply Same; auto; apply incl_refl).
+  destruct (in_active_by_name (st_active st) (job_name_of t) || _);
+    [apply fin_spec in E; destruct E as (-> & -> & -> & _); apply Same; auto; apply incl_refl|].
+  destruct (apply_policy spec st jobs upd0) as [[[[[skip st1] jobs1] rd] upd1] ok] eqn:EP.
+  pose proof (apply_policy_spec _ _ _ _ _ _ _ _ _ _ EP) as (I1 & I2 & _ & _).
+  pose proof (fun r => apply_policy_keeps _ _ _ _ _ _ _ _ _ _ r EP Hu) as K.
+  assert (Same1 : forall st2 o2, (forall r, In r (st_active st1) -> In r (st_active st2)) ->
+    (forall r j, In r (st_active st) -> In j jobs -> In j jobs1 -> j_uid j = r_uid r -> In r (st_active st2)) /\
+    (exists nj, j_uid nj = uid /\
+       forall j, In j jobs1 -> In j jobs \/ (j = nj /\ exists r, In r (st_active st2) /\ r_uid r = uid)) /\
+    (o_creates o2 = [] -> incl jobs1 jobs)).
+  { intros st2 o2 H1. split; [|split; [|auto]].
+    - intros r j Hr Hj Hj1 Hid. apply H1. apply K; auto. exists j. auto.
+    - exists dummy. split; [reflexivity|]. intros j Hj. left. auto. }
+  destruct ok; cbn [negb] in E; [|inversion E; subst; apply Same1; auto].
+  destruct skip; [apply fin_spec in E; destruct E as (-> & -> & -> & _); apply Same1; auto|].
+  pose proof (create_job_creates _ _ _ _ _ _ _ _ _ _ _ _ _ _ _ _ _ E) as CC.
+  pose proof (create_job_shape _ _ _ _ _ _ _ _ _ _ _ _ _ _ _ _ _ E) as [S1 [->|[-> S2]]].
+  - apply Same1; auto.
+  - assert (Hfresh : in_active (st_active st1) uid = false).
+    { apply in_active_false. eapply incl_Forall; [exact I1|apply Hok]. }
+    specialize (S2 Hfresh). split; [|split].
+    + intros r j Hr Hj Hj' Hid. apply S1. apply K; auto. exists j. split; auto.
+      apply insert_job_In in Hj'. destruct Hj' as [->|Hj']; [|exact Hj'].
+      exfalso. destruct Hok as [_ H2]. rewrite Forall_forall in H2. specialize (H2 _ Hj). cbn in H2. lia.
+    + eexists. split; [|intros j Hj; apply insert_job_In in Hj; destruct Hj as [->|Hj];
+                         [right; split; [reflexivity|]; eexists; split; [exact S2|reflexivity]|left; auto]].
+      reflexivity.
+    + intros Hc. rewrite (CC Hc). exact I2.
+Qed.
+
+Definition inv_live (s : cstate) : Prop :=
+  state_ok s /\ uids_unique (s_jobs s) /\ no_orphan (st_active (s_status s)) (s_jobs s).
+
+(* the environment events of a history that cannot create an orphan or revive
+   a finished run: everything except adding an unfinished job owned by this
+   CronJob behind the controller's back and moving a job back to an unfinished phase *)
+Definition op_no_orphan (o : op) : Prop :=
+  match o with
+  | OpAdd _ OwnThis PhOther _ _ => False
+  | OpFinish _ PhOther _ => False
+  | _ => True
+  end.
+
+Lemma reconcile_inv_live : forall next lenient fuel s now fc s' o,
+  reconcile next lenient fuel s now fc = (s', o) -> inv_live s -> o_err o <> E_FUEL ->
+  inv_live s' /\
+  (c_policy (s_spec s) = Forbid -> o_creates o <> [] -> forall j, In j (s_jobs s) -> ~ live j).
+Proof.
+  intros next lenient fuel s now fc s' o. unfold reconcile.
+  destruct (cleanup (s_spec s) (s_status s) (s_jobs s)) as [[[st1 jobs1] hd] upd1] eqn:EC.
+  destruct (decide next lenient fuel (s_spec s) st1 jobs1 (s_next_uid s) now fc upd1 hd)
+    as [[[st2 jobs2] uid2] o2] eqn:ED.
+  intros E (Hok & Hu & Hno) Hfuel; inversion E; subst; clear E.
+  pose proof (cleanup_spec _ _ _ _ _ _ _ EC) as (C1 & C2 & C3 & C4).
+  assert (Hok1 : uid_ok (s_next_uid s) (st_active st1) jobs1) by (eapply uid_ok_incl; eauto).
+  assert (Hu1 : uids_unique jobs1) by (eapply uids_unique_incl; eauto).
+  pose proof (decide_spec next lenient _ _ _ _ _ _ _ _ _ _ _ _ _ ED Hok1) as (Ds & Dh & Du & Dok & Dc).
+  pose proof (decide_keeps _ _ _ _ _ _ _ _ _ _ _ _ _ _ _ ED Hu1 Hok1) as (K1 & (nj & Hnj & K2) & K3).
+  assert (Hlt : forall x, In x jobs1 -> j_uid x < s_next_uid s).
+  { destruct Hok1 as [_ H2]. rewrite Forall_forall in H2. exact H2. }
+  (* references of live old jobs survive the clean-up *)
+  assert (L1 : forall j, In j jobs1 -> live j -> exists r, In r (st_active st1) /\ r_uid r = j_uid j).
+  { intros j Hj Hl. destruct (Hno j (C3 _ Hj) Hl) as (r & Hr & Hid). exists r. split; auto.
+    destruct Hl. eapply cleanup_keeps_live; eauto. }
+  split.
+  - unfold inv_live, state_ok. cbn [s_next_uid s_status s_jobs s_spec].
+    split; [|split].
+    + destruct ((o_err o =? E_OK) && o_upd o); [exact Dok|].
+      destruct Dok as [_ D2]. split; [|exact D2].
+      eapply Forall_impl; [|apply Hok]. cbn; intros; lia.
+    + intros a b Ha Hb Hid. destruct (K2 a Ha) as [Ha'|[-> _]], (K2 b Hb) as [Hb'|[-> _]]; auto.
+      * exfalso. specialize (Hlt _ Ha'). lia.
+      * exfalso. specialize (Hlt _ Hb'). lia.
+    + intros j Hj Hl.
+      destruct ((o_err o =? E_OK) && o_upd o) eqn:Ep.
+      * destruct (K2 j Hj) as [Hj1|[-> (r & Hr & Hru)]].
+        -- destruct (L1 j Hj1 Hl) as (r & Hr & Hid). exists r. split; auto. eapply K1; eauto.
+        -- exists r. split; auto. congruence.
+      * (* nothing was written: then nothing was created either *)
+        destruct Dc as [[Hc _]|(t & Hs & _ & _ & _ & _ & Hupd & He & _)].
+        -- apply Hno; auto. apply C3. apply K3; auto.
+        -- exfalso. assert (Eok : o_err o = E_OK) by (destruct He; [assumption|contradiction]).
+           rewrite Eok, Hupd in Ep. cbn in Ep. discriminate.
+  - intros HF Hcr j Hj Hl.
+    destruct Dc as [[Hc _]|(t & Hs & _ & _ & HFa & _)]; [contradiction|].
+    specialize (HFa HF).
+    destruct (Hno j Hj Hl) as (r & Hr & Hid). destruct Hl as [Hl1 Hl2].
+    pose proof (cleanup_keeps_live _ _ _ _ _ _ _ r j EC Hu Hr Hj Hl1 Hl2 (eq_sym Hid)) as Hin.
+    rewrite HFa in Hin. destruct Hin.
+Qed.
+
+Lemma step_inv_live : forall next lenient fuel s op s' out,
+  step next lenient fuel s op = (s', out) -> inv_live s -> op_no_orphan op ->
+  (forall o, out = Some o -> o_err o <> E_FUEL) -> inv_live s'.
+Proof.
+  intros next lenient fuel s op s' out. destruct op; cbn [step op_no_orphan].
+  - destruct (reconcile next lenient fuel s now fail_create) as [s1 r] eqn:ER.
+    intros E Hi _ Hf; inversion E; subst. eapply reconcile_inv_live; eauto.
+  - intros E (Hok & Hu & Hno) Hop _; inversion E; subst. unfold inv_live, state_ok in *. cbn.
+    set (f := fun j : job => if j_name j =? name then mkJob (j_name j) (j_uid j) (j_owner j) p (j_created j) at_ else j).
+    assert (Fu : forall j, j_uid (f j) = j_uid j) by (intros j; unfold f; destruct (j_name j =? name); reflexivity).
+    split; [|split].
+    + destruct Hok as [H1 H2]. split; auto. rewrite Forall_forall in *. intros x Hx.
+      apply in_map_iff in Hx. destruct Hx as (j & <- & Hj). rewrite Fu. auto.
+    + intros a b Ha Hb Hid. apply in_map_iff in Ha. apply in_map_iff in Hb.
+      destruct Ha as (ja & <- & Hja), Hb as (jb & <- & Hjb). rewrite !Fu in Hid.
+      now rewrite (Hu ja jb Hja Hjb Hid).
+    + intros x Hx [Hl1 Hl2]. apply in_map_iff in Hx. destruct Hx as (j & <- & Hj).
+      rewrite Fu. unfold f in Hl1, Hl2. destruct (j_name j =? name).
+      * cbn in Hl2. destruct p; [contradiction|discriminate|discriminate|discriminate].
+      * apply Hno; auto. split; auto.
+  - intros E (Hok & Hu & Hno) _ _; inversion E; subst. unfold inv_live, state_ok in *. cbn.
+    split; [|split].
+    + eapply uid_ok_incl; eauto; [apply incl_refl|apply remove_job_incl].
+    + eapply uids_unique_incl; eauto. apply remove_job_incl.
+    + intros j Hj Hl. apply Hno; auto. eapply remove_job_incl; eauto.
+  - destruct (find_job (s_jobs s) name); [intros E Hi _ _; inversion E; subst; exact Hi|].
+    intros E (Hok & Hu & Hno) Hop _; inversion E; subst. unfold inv_live, state_ok in *. cbn.
+    assert (Hlt : forall x, In x (s_jobs s) -> j_uid x < s_next_uid s).
+    { destruct Hok as [_ H2]. rewrite Forall_forall in H2. exact H2. }
+    split; [|split].
+    + destruct Hok as [H1 H2]. split.
+      * eapply Forall_impl; [|exact H1]. cbn; intros; lia.
+      * rewrite Forall_forall in *. intros x Hx. apply insert_job_In in Hx.
+        destruct Hx as [->|Hx]; [cbn; lia|]. specialize (H2 x Hx). lia.
+    + intros a b Ha Hb Hid. apply insert_job_In in Ha. apply insert_job_In in Hb.
+      destruct Ha as [->|Ha], Hb as [->|Hb]; auto; cbn in Hid; exfalso.
+      * specialize (Hlt _ Hb). lia.
+      * specialize (Hlt _ Ha). lia.
+    + intros j Hj [Hl1 Hl2]. apply insert_job_In in Hj. destruct Hj as [->|Hj]; [|apply Hno; auto; split; auto].
+      cbn in Hl1, Hl2. subst o. destruct p; [contradiction|discriminate|discriminate|discriminate].
+  - intros E Hi _ _; inversion E; subst. exact Hi.
+  - intros E Hi _ _; inversion E; subst. exact Hi.
+  - intros E Hi _ _; inversion E; subst. exact Hi.
+  - intros E Hi _ _; inversion E; subst. exact Hi.
+Qed.
+
+Lemma run_inv_live : forall next lenient fuel ops s s' outs,
+  run next lenient fuel s ops = (s', outs) -> inv_live s -> Forall op_no_orphan ops ->
+  Forall (fun o => o_err o <> E_FUEL) outs -> inv_live s'.
+Proof.
+  intros next lenient fuel. induction ops as [|op r IH]; cbn [run]; intros s s' outs.
+  - intros E Hi _ _; inversion E; subst. exact Hi.
+  - destruct (step next lenient fuel s op) as [s1 out] eqn:ES.
+    destruct (run next lenient fuel s1 r) as [s2 outs2] eqn:ER.
+    intros E Hi Hops Hf; inversion E; subst; clear E. inversion Hops as [|? ? Hop Hops']; subst.
+    assert (Hf2 : Forall (fun o => o_err o <> E_FUEL) outs2 /\ forall o, out = Some o -> o_err o <> E_FUEL).
+    { destruct out; [inversion Hf; subst; split; auto; intros ? Eo; inversion Eo; subst; auto|
+                     split; auto; intros ? Eo; discriminate]. }
+    destruct Hf2 as [Hf2 Hf1].
+    eapply IH; eauto. eapply step_inv_live; eauto.
+Qed.
+
+(* main (live-run form of the Forbid clause): in every history without orphans
+   planted behind the controller's back, a reconcile under Forbid starts a job
+   only when no unfinished job of this CronJob exists on the server *)
+Theorem cron_forbid_no_live_run : forall next lenient fuel pre s0 s1 outs1 now fc s2 o,
+  inv_live s0 -> Forall op_no_orphan pre ->
+  run next lenient fuel s0 pre = (s1, outs1) -> Forall (fun o => o_err o <> E_FUEL) outs1 ->
+  reconcile next lenient fuel s1 now fc = (s2, o) -> o_err o <> E_FUEL ->
+  c_policy (s_spec s1) = Forbid -> o_creates o <> [] ->
+  forall j, In j (s_jobs s1) -> ~ live j.
+Proof.
+  intros until o. intros Hi Hops ER Hf E Hfo HF Hc.
+  pose proof (run_inv_live _ _ _ _ _ _ _ ER Hi Hops Hf) as Hi1.
+  eapply reconcile_inv_live; eauto.
+Qed.
+
+(* ------------------------------------------------------------------ *)
+(* Stale reads and lost status writes (sync reads the informer cache and *)
+(* swallows a failed UpdateStatus): what still holds, and what does not  *)
+(* ------------------------------------------------------------------ *)
+
+Definition names_unique (jobs : list job) : Prop := NoDup (map j_name jobs).
+
+Lemma names_remove : forall jobs n, names_unique jobs -> names_unique (remove_job jobs n).
+Proof.
+  unfold names_unique, remove_job. induction jobs as [|j r IH]; cbn; intros n H; [constructor|].
+  inversion H; subst. destruct (negb (j_name j =? n)); cbn; auto. constructor; auto.
+  intro Hin. apply H2. apply in_map_iff in Hin. destruct Hin as (x & Hx & Hf). apply filter_In in Hf.
+  apply in_map_iff. exists x. tauto.
+Qed.
+
+Lemma find_job_none : forall jobs n, find_job jobs n = None -> ~ In n (map j_name jobs).
+Proof.
+  induction jobs as [|j r IH]; cbn; intros n H; [tauto|].
+  destruct (Z.eqb_spec (j_name j) n); [discriminate|]. intros [Hx|Hx]; [contradiction|]. eapply IH; eauto.
+Qed.
+
+Lemma names_insert : forall jobs j, names_unique jobs -> find_job jobs (j_name j) = None ->
+  names_unique (insert_job j jobs).
+Proof.
+  unfold names_unique. intros jobs j Hn Hf. apply find_job_none in Hf.
+  assert (P : forall l, NoDup (map j_name l) -> ~ In (j_name j) (map j_name l) -> NoDup (map j_name (insert_job j l))).
+  { induction l as [|k r IH]; cbn; intros Hl Hj; [constructor; [tauto|constructor]|].
+    destruct (j_name j <=? j_name k); cbn; [constructor; auto|].
+    inversion Hl; subst. constructor; [|apply IH; tauto].
+    intro Hin. apply in_map_iff in Hin. destruct Hin as (x & Hx & Hi). apply insert_job_In in Hi.
+    destruct Hi as [->|Hi]; [apply Hj; left; congruence|]. apply H1. apply in_map_iff. exists x. tauto. }
+  apply P; auto.
+Qed.
+
+Lemma delete_each_names : forall victims st jobs dels upd st' jobs' dels' upd',
+  delete_each victims st jobs dels upd = (st', jobs', dels', upd') -> names_unique jobs -> names_unique jobs'.
+Proof.
+  induction victims as [|v r IH]; cbn; intros until upd'.
+  - intros E; inversion E; subst; auto.
+  - destruct (find_job jobs (j_name v)); intros E H; eapply IH in E; eauto. now apply names_remove.
+Qed.
+
+Lemma remove_oldest_names : forall js limit st jobs dels upd st' jobs' dels' upd',
+  remove_oldest js limit st jobs dels upd = (st', jobs', dels', upd') -> names_unique jobs -> names_unique jobs'.
+Proof.
+  intros until upd'. unfold remove_oldest. destruct limit; [|intros E; inversion E; subst; auto].
+  destruct (_ <=? 0); [intros E; inversion E; subst; auto|]. apply delete_each_names.
+Qed.
+
+Lemma cleanup_names : forall spec st jobs st' jobs' hd upd,
+  cleanup spec st jobs = (st', jobs', hd, upd) -> names_unique jobs -> names_unique jobs'.
+Proof.
+  intros until upd. unfold cleanup, process_finished.
+  destruct (fold_left pf_step (mine_of jobs) (st, false, [], [])) as [[[st1 upd1] succ] failed].
+  destruct (c_fail_limit spec), (c_succ_limit spec);
+    try (destruct (remove_oldest succ _ st1 jobs [] upd1) as [[[st2 jobs2] dels2] upd2] eqn:E1;
+         destruct (remove_oldest failed _ st2 jobs2 dels2 upd2) as [[[st3 jobs3] dels3] upd3] eqn:E2;
+         destruct (clean_stale jobs (mine_of jobs) (st_active st3));
+         intros E H; inversion E; subst;
+         eapply remove_oldest_names; [exact E2|]; eapply remove_oldest_names; eauto).
+  destruct (clean_stale jobs (mine_of jobs) (st_active st1)). intros E H; inversion E; subst; auto.
+Qed.
+
+Lemma replace_loop_names : forall idx s jobs dels upd s' jobs' dels' upd' ok,
+  replace_loop idx s jobs dels upd = (s', jobs', dels', upd', ok) -> names_unique jobs -> names_unique jobs'.
+Proof.
+  induction idx as [|i rest IH]; cbn; intros until ok.
+  - intros E; inversion E; subst; auto.
+  - destruct (nth_error (bk s) i) as [r|]; [|intros E; inversion E; subst; auto].
+    destruct (find_job jobs (r_name r)); [|intros E; inversion E; subst; auto].
+    intros E H. eapply IH in E; eauto. now apply names_remove.
+Qed.
+
+(* a Create succeeds only when no job of that name is on the server at that
+   moment - whatever status the reconcile started from *)
+Theorem cron_create_needs_free_name :
+  forall next lenient fuel spec now hd fc t st1 jobs1 uid upd1 rd st' jobs' uid' o nm t',
+  create_job next lenient fuel spec now hd fc t st1 jobs1 uid upd1 rd = (st', jobs', uid', o) ->
+  In (nm, t') (o_creates o) ->
+  nm = job_name_of t /\ t' = t /\ find_job jobs1 nm = None /\
+  jobs' = insert_job (mkJob nm uid OwnThis PhOther (Some now) None) jobs1.
+Proof.
+  intros until t'. unfold create_job, fin. intros E.
+  repeat match type of E with
+         | context [match ?x with _ => _ end] => destruct x eqn:?
+         end;
+    inversion E; subst; cbn; intros Hin; try (destruct Hin; fail);
+    destruct Hin as [Hin|[]]; inversion Hin; subst; auto.
+Qed.
+
+Lemma decide_names : forall next lenient fuel spec st jobs uid now fc upd0 hd st' jobs' uid' o,
+  decide next lenient fuel spec st jobs uid now fc upd0 hd = (st', jobs', uid', o) ->
+  names_unique jobs -> names_unique jobs'.
+Proof.
+  intros until o. unfold decide, apply_policy. intros E H.
+  destruct (c_suspend spec); [inversion E; subst; auto|].
+  destruct (negb (c_tz_ok spec)); [inversion E; subst; auto|].
+  destruct (next_schedule_time next fuel (c_created spec) (st_last st) (c_deadline spec) now) as [| |[t|]];
+    try (inversion E; subst; auto; fail);
+    try (apply fin_spec in E; destruct E as (_ & -> & _); auto; fail).
+  destruct (in_active_by_name (st_active st) (job_name_of t) || _);
+    [apply fin_spec in E; destruct E as (_ & -> & _); auto|].
+  assert (P : forall skip st1 jobs1 rd upd1 ok, names_unique jobs1 ->
+    (if negb ok then (st1, jobs1, uid, mkOut None upd1 E_REPLACE [] hd rd st1)
+     else if (skip : bool) then fin next fuel spec now hd st1 jobs1 uid upd1 [] rd
+     else create_job next lenient fuel spec now hd fc t st1 jobs1 uid upd1 rd) = (st', jobs', uid', o) ->
+    names_unique jobs').
+  { intros skip st1 jobs1 rd upd1 ok H1 E1. destruct ok; cbn [negb] in E1; [|inversion E1; subst; auto].
+    destruct skip; [apply fin_spec in E1; destruct E1 as (_ & -> & _); auto|].
+    destruct (o_creates o) as [|[nm t'] l] eqn:Ec.
+    - rewrite (create_job_creates _ _ _ _ _ _ _ _ _ _ _ _ _ _ _ _ _ E1 Ec). auto.
+    - destruct (cron_create_needs_free_name _ _ _ _ _ _ _ _ _ _ _ _ _ _ _ _ _ nm t' E1) as (_ & _ & Hf & ->);
+        [rewrite Ec; left; reflexivity|]. apply names_insert; auto. }
+  destruct (c_policy spec).
+  - cbv beta iota zeta in E. exact (P false st jobs [] upd0 true H E).
+  - destruct (st_active st); cbv beta iota zeta in E.
+    + exact (P false st jobs [] upd0 true H E).
+    + exact (P true st jobs [] upd0 true H E).
+  - destruct (replace_loop (seq 0 (length (st_active st))) (as_of (st_active st)) jobs [] false)
+      as [[[[s j'] d'] u'] o'] eqn:ER.
+    cbv beta iota zeta in E.
+    eapply (P false _ j' d' _ o'); [|exact E]. eapply replace_loop_names; eauto.
+Qed.
+
+Lemma cleanup2_names : forall spec st srv jobs st' jobs' hd upd,
+  cleanup2 spec st srv jobs = (st', jobs', hd, upd) -> names_unique jobs -> names_unique jobs'.
+Proof.
+  intros until upd. unfold cleanup2, process_finished.
+  destruct (fold_left pf_step (mine_of jobs) (st, false, [], [])) as [[[st1 upd1] succ] failed].
+  destruct (c_fail_limit spec), (c_succ_limit spec);
+    try (destruct (remove_oldest succ _ st1 jobs [] upd1) as [[[st2 jobs2] dels2] upd2] eqn:E1;
+         destruct (remove_oldest failed _ st2 jobs2 dels2 upd2) as [[[st3 jobs3] dels3] upd3] eqn:E2;
+         destruct (switched (mine_of jobs) (st_active st3) srv);
+         [destruct (clean_stale jobs (mine_of jobs) srv)|destruct (clean_stale jobs (mine_of jobs) (st_active st3))];
+         intros E H; inversion E; subst;
+         (eapply remove_oldest_names; [exact E2|]; eapply remove_oldest_names; eauto)).
+  destruct (switched (mine_of jobs) (st_active st1) srv);
+    [destruct (clean_stale jobs (mine_of jobs) srv)|destruct (clean_stale jobs (mine_of jobs) (st_active st1))];
+    intros E H; inversion E; subst; auto.
+Qed.
+
+Lemma reconcile_from_names : forall next lenient fuel s st_in ok now fc s' o,
+  reconcile_from next lenient fuel s st_in ok now fc = (s', o) ->
+  names_unique (s_jobs s) -> names_unique (s_jobs s').
+Proof.
+  intros until o. unfold reconcile_from.
+  destruct (cleanup2 (s_spec s) st_in (st_active (s_status s)) (s_jobs s)) as [[[st1 jobs1] hd] upd1] eqn:EC.
+  destruct (decide next lenient fuel (s_spec s) st1 jobs1 (s_next_uid s) now fc upd1 hd)
+    as [[[st2 jobs2] uid2] o2] eqn:ED.
+  intros E H; inversion E; subst. cbn. eapply decide_names; eauto. eapply cleanup2_names; eauto.
+Qed.
+
+Lemma reconcile_names : forall next lenient fuel s now fc s' o,
+  reconcile next lenient fuel s now fc = (s', o) ->
+  names_unique (s_jobs s) -> names_unique (s_jobs s').
+Proof.
+  intros until o. unfold reconcile.
+  destruct (cleanup (s_spec s) (s_status s) (s_jobs s)) as [[[st1 jobs1] hd] upd1] eqn:EC.
+  destruct (decide next lenient fuel (s_spec s) st1 jobs1 (s_next_uid s) now fc upd1 hd)
+    as [[[st2 jobs2] uid2] o2] eqn:ED.
+  intros E H; inversion E; subst. cbn. eapply decide_names; eauto. eapply cleanup_names; eauto.
+Qed.
+
+(* over EVERY history - fresh reconciles, reconciles that start from an
+   arbitrary older status, lost status writes, environment events - the server
+   never holds two jobs of one name, i.e. of one schedule minute: this, not
+   lastScheduleTime, is the protection that survives stale reads *)
+Theorem cron_stale_one_job_per_name : forall next lenient fuel ops s s' outs,
+  run2 next lenient fuel s ops = (s', outs) -> names_unique (s_jobs s) -> names_unique (s_jobs s').
+Proof.
+  intros next lenient fuel. induction ops as [|op r IH]; cbn [run2]; intros s s' outs.
+  - intros E H; inversion E; subst; auto.
+  - destruct (step2 next lenient fuel s op) as [s1 out] eqn:ES.
+    destruct (run2 next lenient fuel s1 r) as [s2 outs2] eqn:ER.
+    intros E H; inversion E; subst. eapply IH; [exact ER|]. clear IH ER E.
+    destruct op as [o|st_in ok now fc|now fc]; cbn [step2] in ES.
+    + destruct o; cbn [step] in ES.
+      * destruct (reconcile next lenient fuel s now fail_create) as [sx rx] eqn:E1. inversion ES; subst.
+        eapply reconcile_names; eauto.
+      * inversion ES; subst. cbn. unfold names_unique in *. rewrite map_map.
+        erewrite map_ext; [exact H|]. intros j; cbn. destruct (j_name j =? name); reflexivity.
+      * inversion ES; subst. cbn. now apply names_remove.
+      * destruct (find_job (s_jobs s) name) eqn:Ef; inversion ES; subst; auto. cbn.
+        apply names_insert; auto.
+      * inversion ES; subst; auto.
+      * inversion ES; subst; auto.
+      * inversion ES; subst; auto.
+      * inversion ES; subst; auto.
+    + destruct (reconcile_from next lenient fuel s st_in ok now fc) as [sx rx] eqn:E1. inversion ES; subst.
+      eapply reconcile_from_names; eauto.
+    + destruct (reconcile_from next lenient fuel s (s_status s) false now fc) as [sx rx] eqn:E1. inversion ES; subst.
+      eapply reconcile_from_names; eauto.
+Qed.
+
+(* ... whereas "each schedule time starts at most one job" is FALSE once a
+   status write is lost: the job of T finishes, the history limit removes it,
+   and the next reconcile - whose lastScheduleTime never recorded T - starts T again *)
+Theorem cron_at_most_once_lost_write_refuted :
+  exists (s : cstate) (ops : list op2),
+    state_ok s /\ names_unique (s_jobs s) /\
+    let '(_, outs) := run2 next_pairs false 10 s ops in
+    created_times outs = [100 * sec; 100 * sec] /\ Forall (fun o => o_err o <> E_FUEL) outs.
+Proof.
+  exists (mkState (mkSpec (- sec) false Allow None (Some 0) (Some 0) true) (mkStatus None [] None) [] 1).
+  exists [Stale (mkStatus None [] None) false (100 * sec) false;
+          Fresh (OpFinish 1 PhCompleted (Some (100 * sec + 5)));
+          Fresh (OpReconcile (100 * sec + 9) false)].
+  split; [split; constructor|]. split; [constructor|].
+  vm_compute. split; [reflexivity|]. repeat constructor; discriminate.
+Qed.
+
+(* "@every d" (d whole seconds): the closed form meets the two hypotheses the
+   history theorems need (leastness is false for it: no fixed points) *)
+Lemma next_every_ok : forall k, 1 <= k ->
+  (forall t, t < next_every (k * sec) t) /\ (forall t, exists k', next_every (k * sec) t = k' * sec).
+Proof.
+  intros k Hk. pose proof sec_pos as Hs. split; intros t; unfold next_every.
+  - pose proof (Z.mod_pos_bound t sec Hs). nia.
+  - exists (t / sec + k). pose proof (Z.div_mod t sec ltac:(lia)). lia.
+Qed.
+
+Theorem cron_at_most_once_every : forall k lenient fuel ops s s' outs hi,
+  1 <= k ->
+  run (next_every (k * sec)) lenient fuel s ops = (s', outs) -> state_ok s -> bounded hi s -> Forall (op_ok hi) ops ->
+  Forall (fun o => o_err o <> E_FUEL) outs ->
+  NoDup (created_times outs).
+Proof.
+  intros k lenient fuel ops s s' outs hi Hk. destruct (next_every_ok k Hk) as [G S].
+  apply (cron_at_most_once (next_every (k * sec)) lenient hi); auto.
+Qed.
+
+(* ------------------------------------------------------------------ *)
+(* What the boolean laws mean (Prop-level soundness)                    *)
+(* ------------------------------------------------------------------ *)
+
+Lemma mem_In : forall x l, mem x l = true <-> In x l.
+Proof.
+  intros x l. unfold mem. rewrite existsb_exists. split.
+  - intros (y & Hy & E). apply Z.eqb_eq in E. now subst.
+  - intros H. exists x. split; auto. apply Z.eqb_refl.
+Qed.
+
+(* law 110, a chosen time: it is a point of the table, after the earliest time,
+   not after now, and no table point lies in (t, now] *)
+Lemma law_choice_sound : forall tbl created last deadline now t,
+  law_choice tbl created last deadline now (Some t) = true ->
+  In t tbl /\ earliest_time created last deadline now true < t /\ t <= now /\
+  forall p, In p tbl -> t < p -> now < p.
+Proof.
+  intros tbl created last deadline now t H. unfold law_choice in H.
+  repeat (apply andb_prop in H; destruct H as [H ?]).
+  apply mem_In in H. split; [exact H|]. split; [lia|]. split; [lia|].
+  intros p Hp Hlt. rewrite forallb_forall in H0. specialize (H0 p Hp).
+  destruct (Z.ltb_spec t p); [|lia]. cbn in H0. lia.
+Qed.
+
+(* law 110, nothing chosen on a constant-period table: no table point is unmet *)
+Lemma law_choice_none_sound : forall tbl created last deadline now,
+  law_choice tbl created last deadline now None = true -> regular tbl = true ->
+  forall p, In p tbl -> ~ (earliest_time created last deadline now true < p <= now).
+Proof.
+  intros tbl created last deadline now H Hr p Hp [H1 H2]. unfold law_choice in H. rewrite Hr in H.
+  rewrite forallb_forall in H. specialize (H p Hp).
+  destruct (Z.ltb_spec (earliest_time created last deadline now true) p), (Z.leb_spec p now); cbn in H; try discriminate; lia.
+Qed.
+
+(* law 111: the table is a well-formed schedule table and every recorded answer
+   of the real Next is what the table-based [next] answers - the windowed
+   hypotheses of the theorems then follow by next_tbl_window *)
+Lemma law_table_sound : forall tbl qs, law_table tbl qs = true -> tbl <> [] ->
+  tbl_ok tbl /\ forall a r, In (a, r) qs -> a < r /\ r = next_tbl tbl a.
+Proof.
+  intros tbl qs H Hne. unfold law_table in H.
+  apply andb_prop in H. destruct H as [H Hq]. apply andb_prop in H. destruct H as [Hi Hs].
+  assert (Hok : tbl_ok tbl).
+  { split; [exact Hi|]. rewrite Forall_forall. intros p Hp. rewrite forallb_forall in Hs.
+    specialize (Hs p Hp). apply Z.eqb_eq in Hs. exists (p / sec).
+    pose proof (Z.div_mod p sec ltac:(discriminate)). lia. }
+  split; [exact Hok|]. destruct tbl as [|p0 tl]; [contradiction|].
+  intros a r Hin. rewrite forallb_forall in Hq. specialize (Hq (a, r) Hin). cbn beta iota in Hq.
+  repeat (apply andb_prop in Hq; destruct Hq as [Hq ?]).
+  apply mem_In in H1. assert (a < r) by lia. split; [assumption|].
+  destruct (next_tbl_spec (p0 :: tl) a Hi) as (N1 & N2 & N3); [exists r; auto|].
+  rewrite forallb_forall in H. specialize (H _ N1).
+  destruct (Z.ltb_spec a (next_tbl (p0 :: tl) a)); [|lia]. cbn [negb orb] in H.
+  apply Z.leb_le in H. specialize (N3 r H1 H2). lia.
+Qed.
+
+(* law 121, the clauses of the property on one observed reconcile *)
+Lemma law_reconcile_sound : forall tbl o, law_reconcile tbl o = true ->
+  (c_suspend (b_spec o) = true -> b_creates o = []) /\
+  (c_tz_ok (b_spec o) = false -> b_creates o = []) /\
+  (length (b_creates o) <= 1)%nat /\
+  (forall nm t, In (nm, t) (b_creates o) ->
+     In t tbl /\
+     earliest_time (c_created (b_spec o)) (b_last o) (c_deadline (b_spec o)) (b_now o) true < t /\
+     t <= b_now o /\ (forall p, In p tbl -> t < p -> b_now o < p) /\
+     nm = job_name_of t /\ last_lt (b_last o) t) /\
+  (c_policy (b_spec o) = Forbid -> b_creates o <> [] ->
+   forall r j, In r (b_active o) -> find_job (b_jobs o) (r_name r) = Some j -> j_uid j = r_uid r ->
+               finished (j_phase j) = true) /\
+  law_adoption o = true.
+Proof.
+  intros tbl o H. unfold law_reconcile in H. rewrite !andb_true_iff in H.
+  destruct H as ((((((((L1 & L2) & L3) & L4) & L5) & L6) & L7) & L8) & L9).
+  split; [|split; [|split; [|split; [|split]]]]; auto.
+  - intros Hs. rewrite Hs in L1. destruct (b_creates o); [reflexivity|discriminate].
+  - intros Hs. rewrite Hs in L2. destruct (b_creates o); [reflexivity|discriminate].
+  - apply Nat.leb_le. assumption.
+  - intros nm t Hin. rewrite forallb_forall in L4. specialize (L4 _ Hin). cbn beta iota in L4.
+    rewrite !andb_true_iff in L4. destruct L4 as (((A1 & A2) & A3) & A4).
+    apply law_choice_sound in A1. destruct A1 as (A & B & C & D).
+    repeat split; auto.
+    + apply Z.eqb_eq in A2. exact A2.
+    + unfold last_lt. destruct (b_last o); [lia|exact I].
+  - intros HF Hc r j Hr Hf Hid. rewrite HF in L5. destruct (b_creates o) as [|[nm t] l]; [contradiction|].
+    apply andb_prop in L5. destruct L5 as [L5 _]. rewrite forallb_forall in L5. specialize (L5 r Hr).
+    rewrite Hf in L5. apply orb_prop in L5. destruct L5 as [L5|L5]; [|exact L5].
+    rewrite Hid, Z.eqb_refl in L5. discriminate.
+Qed.
+
+(* law 121, adoption clause: an AlreadyExists on an unfinished job of this
+   CronJob that can be fetched leaves it referenced, and recorded unless it was *)
+Lemma law_adoption_sound : forall o nm t j, law_adoption o = true ->
+  In (nm, t) (b_conflicts o) -> find_job (b_jobs o) nm = Some j ->
+  mem nm (map fst (b_deletes o)) = false ->
+  j_owner j = OwnThis -> finished (j_phase j) = false -> b_lenient o = true ->
+  b_creates o = [] /\ b_err o = 0 /\
+  (exists r, In r (b_active_after o) /\ r_name r = nm /\ r_uid r = j_uid j) /\
+  ((exists r, In r (b_active o) /\ r_uid r = j_uid j) \/ (b_last_after o = Some t /\ b_upd o = true)).
+Proof.
+  intros o nm t j H Hin Hf Hd Ho Hu Hl. unfold law_adoption in H. rewrite forallb_forall in H.
+  specialize (H _ Hin). cbn beta iota in H. rewrite Hf, Hd, Ho, Hu, Hl in H.
+  rewrite !andb_true_iff in H. destruct H as (A1 & (A2 & A3) & A4).
+  split; [destruct (b_creates o); [reflexivity|discriminate]|].
+  split; [apply Z.eqb_eq; assumption|]. split.
+  - apply existsb_exists in A3. destruct A3 as (r & Hr & E). apply andb_prop in E. destruct E as [E1 E2].
+    exists r. rewrite Z.eqb_eq in E1, E2. auto.
+  - apply orb_prop in A4. destruct A4 as [E|E].
+    + left. apply existsb_exists in E. destruct E as (r & Hr & E). exists r. rewrite Z.eqb_eq in E. auto.
+    + right. apply andb_prop in E. destruct E as [E1 E2]. destruct (b_last_after o); [|discriminate].
+      apply Z.eqb_eq in E1. subst. auto.
+Qed.
+
+(* ------------------------------------------------------------------ *)
+(* formatSchedule against an independent specification                  *)
+(* ------------------------------------------------------------------ *)
+
+(* written without the modelled function: which zone the property text means *)
+Inductive zone_spec : tzspec -> sstr -> zone -> Prop :=
+| ZS_embedded : forall tz k e, zone_spec tz (mkSstr k (Some e)) (ZNamed e)
+| ZS_field : forall k z, zone_spec (TzLoads z) (mkSstr k None) (ZNamed z)
+| ZS_local : forall k, zone_spec TzNil (mkSstr k None) ZLocal
+| ZS_rejected : forall k, zone_spec TzInvalid (mkSstr k None) ZLocal.
+
+Theorem cron_zone_meets_spec : forall tz s z, zone_used tz s = z <-> zone_spec tz s z.
+Proof.
+  intros tz [k [e|]] z; split.
+  - intros <-. destruct tz; cbn; constructor.
+  - intros H; inversion H; subst; reflexivity.
+  - intros <-. destruct tz; cbn; constructor.
+  - intros H; inversion H; subst; reflexivity.
+Qed.
+
+(* the UID precondition of the Delete is the FRESH copy's: relabelling the
+   lister's copy changes nothing *)
+Theorem gc_uid_is_the_fresh_copys : forall lj fresh now1 now2 u,
+  let relabel (j : gjob) := mkGjob u (g_phase j) (g_ttl j) (g_deleting j) (g_finish j) (g_created j) in
+  process_job (option_map relabel lj) fresh now1 now2 = process_job lj fresh now1 now2.
+Proof. intros [j|] fresh now1 now2 u; reflexivity. Qed.
